@@ -12,710 +12,385 @@ Definition show_fres (r : fres) : string :=
   end.
 Definition check (rs : list rune) : string := digest (show_fres (format_res rs)).
 Definition full (rs : list rune) : string := show_fres (format_res rs).
-Eval vm_compute in ("<<<M3874>>>" ++ check (runes_of_ascii "
-
-  // `tick` ""quote"" 'q'
-
-packet 
-A
-
-{@lengthOf(  msg_type  )repeat
-
-int64
-rootA 
-  // " ++ [27880; 37322]%N ++ runes_of_ascii "
-	// `tick` ""quote"" 'q'
-	,  x
-    ,
-@calculatedFrom(	"""" 
-)  //x
-    x  @lengthOf( 	 // @lengthOf(
-
-	trueish
-
-    )  ,match  x
-	as
-
-    x_y_z  { ""a\""b""
-: 	 // trailing space 
-	  packetx}
-
-    ,	packetx @calculatedFrom( 
-""""
+Eval vm_compute in ("<<<M727>>>" ++ check (runes_of_ascii "packet lengthOf { @leftPad
+( ' '
     )
-
-`u8 x,` 
-,float32
-u128
-	`crlf
-line`
-
-    ,	match x  as
-T
-
-    { [
-""packet""	]
-
-:
-
-    body }
-    , x_y_z
-
-    @calculatedFrom(
-    """"	) ,rootA	tag,
-    } root packet 
-body
-// " ++ [27880; 37322]%N ++ runes_of_ascii "
-    /// triple
-  { @calculatedFrom( 
-""a\\""
-
-    )
-    repeat
-
-i8 metadata	,	@calculatedFrom(
-    """ ++ [128512]%N ++ runes_of_ascii """ 
-)
-repeat 
-pack  string_
-
-,
-@rightPad
-( //x
-	' '
-    )char[
-    10
-] calculatedFrom	@lengthOf(	pack)`doc` ,
-    @calculatedFrom(
-""it's""  //	t
-      ) 
-repeat
-
-    Packet {// " ++ [27880; 37322]%N ++ runes_of_ascii "
-	match
-
-options1  as
-    body {
-
-    ""\n""	:Foo
-	, 3	:  //
-    asx	, } , }
-
-    ,@lengthOf(
-
-    As )
-float64 Logon	@calculatedFrom( """" )
-        /// triple
-	, i64_
-
-{ match
-	x_y_z as string_
-
-    { 42:
-	pack""\" ++ [233]%N ++ runes_of_ascii """	// " ++ [128512]%N ++ runes_of_ascii " emoji
-:
-    rootA
-
-,
-	255: 
-lengthOf 4294967296:tag , 
+// c
+// packet A { u8 x, }
+match len as As {
+""1""
+: leftPad
+,255
+: Pad	""1"" :
+x // a // b
+,4294967296:  u128
+, // " ++ [27880; 37322]%N ++ runes_of_ascii "
 }
-
-,  }  ,	@tag(3 
-) @tag( 7
-
+    , @rightPad( ) crc  `line1
+line2`, @lengthOf( leftPad
     )
-    @rightPad
-    (
-
-) repeat
-        //x
-//x
-  uint64
-
-u128
-, 
-int16
-
-    packetx // " ++ [27880; 37322]%N ++ runes_of_ascii "
-`" ++ [233]%N ++ runes_of_ascii "`
-        // " ++ [27880; 37322]%N ++ runes_of_ascii "
-  // c
-	  , repeat
-
-    metadata  
-      //
-  /// triple
-    	len 
-
-//x
-
-	// trailing space 
-,
-}
-    packet	rootA  {repeat	A	{
-
-repeat
-	T	{
-roots@lengthOf(	i64_ 
-) , 
-u16
-tag
-
-@calculatedFrom(
-""packet""  )
-,
-
-    string
-    falsey	@calculatedFrom(
-	""\n""
-    ) 
-,
-match
-	x
-
-    as
-    u8x 
-    //	t
-  // " ++ [27880; 37322]%N ++ runes_of_ascii "
-	{
-0// trailing space 
-      :
-	string_ ,  """" :	_x	""\" ++ [233]%N ++ runes_of_ascii """  /// triple
-  	:  MetaDataX
-	,
-
-    }, 
-} , } ,
-    @calculatedFrom(
-	""a\""b"" )
-
-    repeat
-i16	i8i8
-,
-    repeat
-    float32  BodyLength `two words`
-
-,@leftPad  (
-	)
-
-u32 
-_x 	 // packet A { u8 x, }
-		@calculatedFrom(""CRC32"" ),
-@leftPad(
-    ' ')  crc	@lengthOf( o )
-`u8 x,`
-,
-@lengthOf(
-
-Packet)  msg_type	Z9_ ,
-	u 
-{
-repeat o  ,	} 
-, }
-packet rootA
-
-    { repeat
-    T	uint8x
-
-,
-	}  
-      //	t
-    	packet 
-x_y_z
-	{	@tag(255	// " ++ [128512]%N ++ runes_of_ascii " emoji
-      )
-	float64
-
-lengthOf	,
-@rightPad
-	// " ++ [128512]%N ++ runes_of_ascii " emoji
-	('0') len
-@calculatedFrom( ""a\\""	)
-    ,  uint32
-
-    Logon  @calculatedFrom(
-
-""`tick`""  //	t
-
-  )`it's` 
-, @rightPad
-	(	)zchar[
-
-00  ]
-
-len
-
-, @tag(	// packet A { u8 x, }
-
-3
-
-) char[ 255 
-]
-
-    Header 	 //x
-      `{ , }`,  match 
-Logon as
-
-metadata	{ 
-""{,}"" : 
-pack , 
-}  ,
-}")).
-Eval vm_compute in ("<<<M3726>>>" ++ check (runes_of_ascii "
-root
-	packet a1 {
-
-repeat	zchar 
-int 
-, string u , string 
-u8x @lengthOf(
-
-msg_type 
-)  ,
-rootA
-
-`it's`	, @tag(
-	255
-)  //x
-    uint16 packetx @lengthOf(
-
-    Z9_)
-
-`it's`	,	@leftPad
-    ('\x00' )	uint8 zchar,  @tag( 007
-)@tag(  // trailing space 
-
-  4294967296
-    )
-
-    trueish @lengthOf(	i64_ ) 
-,
-	uint8
-	repeatCount 
-`crlf
-line`
-,
-    string metadata
-    ,
-match len
-as 
-metadata{
-
-    0: 
-Packet ,} ,} packet As 
-{repeat 
-i8 T
-	,
-
-pack  ,
-    @lengthOf( stringy
-    )
-char[
-	0]
-    Pad
-,repeat
-    char[
-	0]
-
-    tag ,
-    @lengthOf( roots
-    )
-
-uint16  
-  // a // b
-
-string_// " ++ [128512]%N ++ runes_of_ascii " emoji
-@lengthOf(
-	    // a // b
-    zchar
-
-)	`{ , }`  ,
-
-    @lengthOf( a1 // " ++ [128512]%N ++ runes_of_ascii " emoji
-
-)
-
-repeat x_y_z
+@calculatedFrom( ""a\\"" ) repeat char[] _x`a\`	,repeatCount asx , repeat u	{match falsey as i8i8
     {
-int8	f32a
-    , packetx { match
-Header	as Packet { 
-[ 
-
-// @lengthOf(
-
-// trailing space 
-""it's"" ] :
-
-    uint8x 
-1
-:u128
-
-    ,""\" ++ [233]%N ++ runes_of_ascii """:
-MetaDataX
-	,
-[
-
-    ""a\\""
-,1,""x y""  ] 
+    //x
+    """ ++ [233]%N ++ runes_of_ascii "t" ++ [233]%N ++ runes_of_ascii """ : float  ,
+[ ""\n""] : _x
+    , ""CRC32""// a // b
 :
-f32a
-,
-65535 :
-BodyLength
-,}
-,
-msg_type @calculatedFrom( ""abc"" ) 
-//
-
-`// not a comment` ,match
-
-    chars
-	as 
-Header
-    { 7
-
-    :
-
-x_y_z
-	,  10
-:matchKey/// triple
-,
-
-    ""x y"":	// " ++ [128512]%N ++ runes_of_ascii " emoji
-	x_y_z ,
-	007  : float	,  },  // a // b
-uint8x 
-u
-,	}
-,
-repeat 
-Foo
-	{ //	t
+roots
+, 7 :	matchKey
+""packet"" : Foo
+, ""1"":
+int , } ,
+}
+    ,
+    i8 x `" ++ [233]%N ++ runes_of_ascii "`	,@tag( 3
+    ) f32a ,
     repeat
-float64 
-chars
-, //x
-  match len 
+    lengthOf {
+    //x
+    int@lengthOf(
+/// triple
+// " ++ [128512]%N ++ runes_of_ascii " emoji
+calculatedFrom )	,int64 falsey	`doc`
+    ,},// @lengthOf(
+@calculatedFrom( ""x y""
+// @lengthOf(
+//	t
+) //	t
+match x_y_z as
     //
-  //x
-  as 
-Pad{ [
-    ""\" ++ [233]%N ++ runes_of_ascii """
-
-,
-1
-
-    ] :
-
-    u8x
-
-    , 10:
-
-    i64_ [
-
-""CRC32""] :Logon, [
-    ""CRC32""
-	, 
-255
-
-    ]
-    : u8x , },
-
-}
-,}
-
-,	@lengthOf( Packet	) @leftPad (
-    '0'
-)  @rightPad
-	// c
-
-()
-zchar[ 3 
-] 
-uint8x  //
+    Z9_ {1 :
+    lengthOf , 255
+: u128
+, ""it's"" : Z9_  ,
+    // @lengthOf(
+    42:
+len }
+    , match
+calculatedFrom as crc  {	[ 0123456789 , 255 , ""packet"",""it's"" ,
+0, ""\n"" ,1
     ,
-    match
-    int  as
-pack
-	{ 
-	// " ++ [128512]%N ++ runes_of_ascii " emoji
-	[ 3] :  string_ ""a\""b""
-:
-	repeatCount,	007 :
-	zchar	}
-    ,
-	repeat
-uint8 lengthOf
-`// not a comment` ,}
-options  { Logon
-	=
-    ""packet""
-
-// @lengthOf(
-      // `tick` ""quote"" 'q'
-
-rootA
-=  //	t
-    true packetx= false f32a=
-
-    ""a\\""
-	} root  packet 
-u
-	{
-
-    repeat char[] body
-, //
-      @calculatedFrom(
-
-    ""a\""b""
-
-)	@lengthOf(Foo)A @calculatedFrom(
-	""{,}"" ) 
-,  }  options {trueish=
-0
-	charz  =
-    ""abc""
-
-}
-
-")).
-Eval vm_compute in ("<<<M3756>>>" ++ check (runes_of_ascii "  //x
-  root
-
-    packet
-
-// `tick` ""quote"" 'q'
-
-// `tick` ""quote"" 'q'
-	i8i8
-    {u128
-{
-repeat
-lengthOf Foo	//
-	`u8 x,`
-    ,
-MetaDataX falsey
-`two words`, 
-Pad{
-    u8
-	a1  @lengthOf(
-leftPad
-
-)
-,
-
-    }
-	,
-int 
-@calculatedFrom(  // " ++ [128512]%N ++ runes_of_ascii " emoji
-    ""a\\"" )
-    `
-`	, } ,
-
-    Header
-	Logon
-	,	match	rootA 	 // c
-	as  BodyLength
-    // " ++ [27880; 37322]%N ++ runes_of_ascii "
-	  {
-	""" ++ [28040; 24687]%N ++ runes_of_ascii """ :	Pad [
-""" ++ [233]%N ++ runes_of_ascii "t" ++ [233]%N ++ runes_of_ascii """,	1]:
-    _x 
-,
-	},options1
-
-    `crlf
-line`  ,
-
-    repeat
-	u
-
-    {match
-i8i8 as
-    falsey {	// `tick` ""quote"" 'q'
-[ 42 ,
-4294967296	]	:
-    x_y_z
-	,
-
-42 :
-float
-, 
-
-// `tick` ""quote"" 'q'
-    // c
-    3
-
-:
-packetx  ,	},}
-	,
-charz ,	} 
-	    // a // b
-
-root  packet float 
-// @lengthOf(
-    // c
-    {repeat	_x	body
-`say ""hi""` ,
-	charz `// not a comment`, 
-repeat lengthOf
-    {
-repeatCount
-
-    {repeat
-tag
-    { zchar[
-
-42 
-]
-
-// a // b
-    // " ++ [27880; 37322]%N ++ runes_of_ascii "
-	leftPad,
-repeat
-zchar[
-
-0123456789]T 
-`crlf
-line`,char[]
-trueish
-    ,
-zchar[
-	007  // " ++ [128512]%N ++ runes_of_ascii " emoji
-  ]
-lengthOf
-@lengthOf(
-
-string_
-
-)	`" ++ [233]%N ++ runes_of_ascii "`
-    ,  }
-	,
-	repeat	int32
-As
-    ,
-    int8 chars,i32 
-calculatedFrom 
-`it's`
-	, } 	 /// triple
-,
-	zchar[  00 ]
-chars 
-``,}
-
-,  char[ 
-255
-]
-charz @calculatedFrom(
-    ""1""
-
-) `doc`
-,  // packet A { u8 x, }
-	match 
-body as
-rootA
-{ 
-""CRC32""
-	: A	,
-[ 
-007 , ""{,}"" 
-,
-
-0// `tick` ""quote"" 'q'
-    , 
-""1"" ,
     0123456789
-
-    , ""// no comment"" // " ++ [27880; 37322]%N ++ runes_of_ascii "
-
-,""it's""
-, 
-1
-	] : BodyLength
-
-65535	: x_y_z
-[ ""`tick`""
-	] 
-:	a1}  , repeat
-    asx{
-    char[ 0123456789 ] 
-i64_
-	`" ++ [28040; 24687; 31867; 22411]%N ++ runes_of_ascii "`  ,
-} ,
-@lengthOf(x_y_z
-) pack@calculatedFrom( 
-""" ++ [233]%N ++ runes_of_ascii "t" ++ [233]%N ++ runes_of_ascii """
-) ,
-
-@tag( 3
-
+] : calculatedFrom, 65535: _x ""CRC32""
+    // a // b
+    :
+tag ,[//	t
+""`tick`""
+    // @lengthOf(
+    ] : T
+    , [ ""it's"" , ""it's""
+// packet A { u8 x, }
+// `tick` ""quote"" 'q'
+, 0123456789 , """ ++ [128512]%N ++ runes_of_ascii """// " ++ [128512]%N ++ runes_of_ascii " emoji
+,
+4294967296, ""`tick`"" ] :
+pack ,
+} , }
+    packet
+//x
+// packet A { u8 x, }
+u8x { //x
+} root
+// " ++ [27880; 37322]%N ++ runes_of_ascii "
+// @lengthOf(
+packet
+string_ { @tag( 3) char[]crc, @rightPad
+    ( '\x00' )@leftPad// @lengthOf(
+( ' ' )repeat char[ 42 ]Foo  ,
+    @calculatedFrom( //
+""{,}""
+)
+    string
+stringy @lengthOf( chars	)  ,@tag(
+1 // packet A { u8 x, }
+)// " ++ [128512]%N ++ runes_of_ascii " emoji
+zchar[ 007 ] charz`two words`,
+    repeat
+    msg_type
+{ char uint8x
+    `line1
+line2` , char[ /// triple
+00 ] // trailing space 
+options1 @calculatedFrom( """ ++ [233]%N ++ runes_of_ascii "t" ++ [233]%N ++ runes_of_ascii """ ) `say ""hi""` ,
+    matchKey @calculatedFrom(""1""
+    ), //
+} //x
+, @tag( 0123456789
+    )
+    //	t
+    zchar[
+00
+//
+// a // b
+]
+    // packet A { u8 x, }
+    lengthOf , @tag( 3 )
+    falsey As , } packet
+lengthOf{	chars { Packet
+`tab	here`, metadata ,
+    repeat zchar ,	} ,match matchKey  as roots { ""x y"" :  float }
+    // packet A { u8 x, }
+    , @tag(1 ) @tag( 4294967296)
+T
+{ int32
+    // `tick` ""quote"" 'q'
+    string_ `a\`
+    ,i8
+    // a // b
+    Pad @calculatedFrom( ""a\""b""
+) // packet A { u8 x, }
+`u8 x,`
+// a // b
+// trailing space 
+, repeat char[]
+    //x
+    zchar `" ++ [233]%N ++ runes_of_ascii "` , u8x { repeat char[]x_y_z ,
+} , } , @rightPad
+( '\x00' )
+repeat zchar[// trailing space 
+7  ] // @lengthOf(
+i8i8//	t
+, }")).
+Eval vm_compute in ("<<<M891>>>" ++ check (runes_of_ascii "packet o
+    {
+    i64 Packet `
+`, } root packet falsey { i8 zchar @lengthOf(i64_ )
     // trailing space 
-  //
-
-	)repeat
-    uint64  o ,// @lengthOf(
-}
-")).
-Eval vm_compute in ("<<<M4259>>>" ++ check (runes_of_ascii "packet charz {
-    match Packet as x_y_z {
-        """" : f32a,
-        [
-            255, 4294967296, 0, 4294967296, 10,
-            00
-        ] : crc,
-        ""{,}"" : Foo,
-        65535 : Pad,
-        10 : Logon,
-    },
-    repeat Foo {
-        match tag as matchKey {
-            [65535, 3] : body,
-            10 : A,
-            42 : body,
-            007 : As,
-            [""a\\""] : msg_type,
-            [0123456789, 255] : msg_type,
-        },
-        u16 MetaDataX,
-        o {
-            match T as string_ {
-                0 : trueish,
-                3 : MetaDataX,
-                //x
-                ""packet"" : rootA,
-                7 : o,
-                [42, 0123456789, ""a\\"", ""a	b"", ""packet""] : f32a,
-                [4294967296, 65535, ""a	b"", ""packet""] : falsey,
-            },
-        },
-    },
-    packetx u ``,
-    @tag(42)
-    u32 f32a ``,
-    msg_type @lengthOf(matchKey) `{ , }`,
-    @leftPad(' ')
-    char[] asx @calculatedFrom(""" ++ [28040; 24687]%N ++ runes_of_ascii """),
-    /// triple
+    , @tag( 255 )
+    char[ 10]// c
+i64_@calculatedFrom(""\n"" ) `u8 x,`	,
+@leftPad(	' ' ) i64 uint8x ,
+repeat
+u8x
+    {// " ++ [27880; 37322]%N ++ runes_of_ascii "
+rootA
+{ MetaDataX
+    @lengthOf( // `tick` ""quote"" 'q'
+trueish
+)	, T@lengthOf(
+    f32a) ,
+    // a // b
+    repeat
+    stringy,} , pack  @calculatedFrom(
+""it's"" ) ,
+    i16
+    metadata
+`u8 x,` , repeat
+int
+    ,} ,
+    // @lengthOf(
+    } packet
     // " ++ [128512]%N ++ runes_of_ascii " emoji
-    zchar[3] rootA,
-    uint16 u8x `two words`,
+    body { leftPad { match u8x
+    as
+i64_
+    { // @lengthOf(
+[ 007 ,0 ] :
+    a1 ,[ 42 ]:	A  ,	} ,
+match	x as Z9_ { 007
+    :MetaDataX
+    ,
+0
+    //	t
+    :leftPad ,""" ++ [128512]%N ++ runes_of_ascii """ :
+    MetaDataX ,
+""abc"" :uint8x ,007: trueish,
+    // c
+    } , } ,
+zchar @calculatedFrom( ""// no comment"")  ,
+trueish	@lengthOf( u ) `line1
+line2` , @calculatedFrom( ""abc"" ) char[]
+    /// triple
+    len /// triple
+`tab	here`
+, float64 zchar
+`line1
+line2`
+, match i64_ //
+as body
+{[ // @lengthOf(
+0123456789
+    // c
+    ]
+    : float 10:  Foo ,
+[ ""CRC32""
+]: Foo ""x y"" :metadata , [ 10 ,	255 , ""abc"" ,0123456789, //x
+0 , 1 ,
+7 ]
+:	f32a, } , @calculatedFrom(""{,}"" )
+    @lengthOf(
+    len // a // b
+)
+    match x_y_z as uint8x {
+""\" ++ [233]%N ++ runes_of_ascii """:T ,  } , o @lengthOf(// trailing space 
+body )
+    ,	u64 //
+o @calculatedFrom(
+""a	b""
+    ) // c
+`say ""hi""`
+,repeat  string Header
+    , }packet
+zchar {
+// `tick` ""quote"" 'q'
+// packet A { u8 x, }
+@rightPad ( // " ++ [27880; 37322]%N ++ runes_of_ascii "
+'0'
+//	t
+/// triple
+)
+repeat
+zchar[ 3]  o `doc` , zchar[
+    // packet A { u8 x, }
+    4294967296 ] x_y_z , @calculatedFrom(""{,}""
+    /// triple
+    )	@calculatedFrom(	""" ++ [28040; 24687]%N ++ runes_of_ascii """ ) float32
+    A @lengthOf(Pad ),
+    @tag(
+    7 )
+    // `tick` ""quote"" 'q'
+    Packet
+    @calculatedFrom(
+    ""// no comment""
+    )
+,zchar[ 10 ]
+asx
+    // " ++ [27880; 37322]%N ++ runes_of_ascii "
+    `` /// triple
+, tag len `tab	here`,	}
+")).
+Eval vm_compute in ("<<<M4327>>>" ++ check (runes_of_ascii "packet rootA {
     @rightPad('0')
-    match zchar as repeatCount {
-        ""a\\"" : T,
-        ""a\\"" : As,
-        [
-            255, 4294967296, 00, 7, ""// no comment"",
-            ""x y"", ""{,}"", ""it's""
-        ] : leftPad,
-        007 : zchar,
-        ""a	b"" : falsey,
+    string leftPad @calculatedFrom(""" ++ [233]%N ++ runes_of_ascii "t" ++ [233]%N ++ runes_of_ascii """) `two words`,
+}
+
+packet A {
+    @calculatedFrom(""it's"")
+    char[] msg_type @lengthOf(asx) `u8 x,`,
+    charz o,
+    @calculatedFrom(""`tick`"")
+    @lengthOf(crc)
+    //
+    match falsey as metadata {
+        // @lengthOf(
+        [65535, 65535] : u8x,
+        ""\n"" : int,
+        007 : MetaDataX,
+        ""it's"" : f32a,
+        0 : i8i8,
+        [65535, 255] : u8x,
     },
 }
 
-options {
-    lengthOf = '0'// a // b
+packet charz {
+    string MetaDataX,
+    // packet A { u8 x, }
+    repeat char[] _x,
+    @rightPad()
+    match pack as string_ {
+        ""a	b"" : trueish,
+        ""it's"" : A,
+        10 : T,
+        0 : msg_type,
+        [
+            7, 1, ""1"", 00, 10,
+            4294967296, 10
+        ] : Pad,
+    },// a // b
+    A {
+        repeat u128 {
+            char[00] a1 `line1
+            line2`,//x
+            uint8x rootA `say ""hi""`,
+            match uint8x as i64_ {
+                """ ++ [28040; 24687]%N ++ runes_of_ascii """ : msg_type,
+                ""\n"" : i8i8,
+            },
+            i64 x_y_z `{ , }`,
+        },
+        match zchar as Header {
+            3 : pack,
+            ""x y"" : packetx,
+            //x
+            255 : u8x,
+            ""abc"" : Z9_,
+            ""x y"" : msg_type,
+            [""a\\"", 10] : o,
+        },
+        char[0] leftPad `{ , }`,
+        string stringy @calculatedFrom(""`tick`"") `u8 x,`,
+    },
+    repeat zchar[00] Packet,
+    repeat u16 tag,
+    @tag(65535)
+    repeat uint64 MetaDataX,
+}
+
+MetaData pack {
+}")).
+Eval vm_compute in ("<<<M1405>>>" ++ check (runes_of_ascii "options {
+    StringPrefixLenType = u16;
+    ArrayPrefixLenType = u16;
+}
+
+packet SampleBinary {
+    uint16 MsgType `" ++ [28040; 24687; 31867; 22411]%N ++ runes_of_ascii "`,
+    u16 BodyLenght @lengthOf(Body) `" ++ [28040; 24687; 20307; 38271; 24230]%N ++ runes_of_ascii "`,
+    match MsgType as Body {
+        1 : Logon,
+        2 : Logout,
+        3 : Heartbeat,
+        4 : RiskControlRequest,
+        5 : RiskControlResponse,
+    },
+    @calculatedFrom(""CRC32"")
+    u32 Ckecksum `" ++ [26657; 39564; 21644]%N ++ runes_of_ascii "`,
+}
+
+packet Logon {
+    @leftPad('0')
+    char[10] UserName `" ++ [29992; 25143; 21517]%N ++ runes_of_ascii "`,
+    string Password `" ++ [23494; 30721]%N ++ runes_of_ascii "`,
+    uint64 ClientId `" ++ [23458; 25143; 31471]%N ++ runes_of_ascii "ID`,
+    u16 HeartbeatInterval `" ++ [24515; 36339; 38388; 38548]%N ++ runes_of_ascii "`,
+}
+
+packet Logout {
+    @rightPad('0')
+    char[10] UserName `" ++ [29992; 25143; 21517]%N ++ runes_of_ascii "`,
+    uint64 ClientId `" ++ [23458; 25143; 31471]%N ++ runes_of_ascii "ID`,
+}
+
+packet Heartbeat {
+}
+
+packet RiskControlRequest {
+    string UniqueOrderId `" ++ [21807; 19968; 35746; 21333; 21495]%N ++ runes_of_ascii "`,
+    char[16] ClOrdID `" ++ [23458; 25143; 35746; 21333; 21495]%N ++ runes_of_ascii "`,
+    char[3] MarketID `" ++ [24066; 22330]%N ++ runes_of_ascii "id`,
+    char[12] SecurityID `" ++ [35777; 21048; 20195; 30721]%N ++ runes_of_ascii "`,
+    char Side `" ++ [20080; 21334; 26041; 21521]%N ++ runes_of_ascii "`,
+    char OrderType `" ++ [35746; 21333; 31867; 22411]%N ++ runes_of_ascii "`,
+    u64 Price `" ++ [20215; 26684]%N ++ runes_of_ascii "`,
+    u32 Qty `" ++ [25968; 37327]%N ++ runes_of_ascii "`,
+    repeat string ExtraInfo `" ++ [38468; 21152; 20449; 24687]%N ++ runes_of_ascii "`,
+    repeat SubOrder {
+        char[16] ClOrdID `" ++ [23376; 35746; 21333; 21495]%N ++ runes_of_ascii "`,
+        u64 Price `" ++ [23376; 35746; 21333; 20215; 26684]%N ++ runes_of_ascii "`,
+        u32 Qty `" ++ [23376; 35746; 21333; 25968; 37327]%N ++ runes_of_ascii "`,
+    },
+}
+
+packet RiskControlResponse {
+    string UniqueOrderId `" ++ [21807; 19968; 35746; 21333; 21495]%N ++ runes_of_ascii "`,
+    i32 Status `" ++ [29366; 24577]%N ++ runes_of_ascii "`,
+    string Msg `" ++ [32467; 26524; 20449; 24687]%N ++ runes_of_ascii "`,
+    repeat Detail,
+}
+
+packet Detail {
+    string RuleName `" ++ [35268; 21017; 21517; 31216]%N ++ runes_of_ascii "`,
+    u16 Code `" ++ [21407; 22240; 20195; 30721]%N ++ runes_of_ascii "`,
 }")).
 Eval vm_compute in ("<<<M787>>>" ++ check (runes_of_ascii "  packet
     pack
@@ -776,812 +451,873 @@ i8i8  { char[] Header `a\` ,o options1
     // @lengthOf(
     } , } MetaData repeatCount { char[] Header`two words` , int16 f32a
     `u8 x,`  , tag zchar ,	Packet x `it's` ,} // packet A { u8 x, }")).
-Eval vm_compute in ("<<<M830>>>" ++ check (runes_of_ascii "packet chars { float{ match
-Header
-    as stringy{ // a // b
-1
-: i64_
-    ,65535  :
-T
-    ,
-007
-    :
-    string_ , 00 : pack ,
-}
-    ,
-    // @lengthOf(
-    i16 int@calculatedFrom(
-//	t
-//x
-""{,}""
-),
-char[ 255  ] trueish,
-}
-,
-    repeat string_
+Eval vm_compute in ("<<<M1179>>>" ++ check (runes_of_ascii "MetaData crc
+// trailing space 
+// packet A { u8 x, }
+{Z9_  metadata
+`u8 x,`, }
+    packet // packet A { u8 x, }
+matchKey
+{	leftPad , string x ,
+    // " ++ [27880; 37322]%N ++ runes_of_ascii "
+    } packet x	{ match msg_type
+as MetaDataX//
+{ // @lengthOf(
+00
+:  roots , } , char[ 255
+]
+    // packet A { u8 x, }
+    falsey `" ++ [28040; 24687; 31867; 22411]%N ++ runes_of_ascii "`
     //	t
-    { trueish {
-match rootA as Logon
-{
-0
-: metadata
-10
-: tag,
-    },	matchKey {match
-    tag as lengthOf	{[
-""`tick`"" , 00] : Header , [ 4294967296 ]
-    :
-    tag , 4294967296
-:
-//
-/// triple
-leftPad
-, [
-""abc"",	65535 ,""a\""b""
-    , // a // b
-""// no comment""] : float ,},} // trailing space 
-,/// triple
-}, match BodyLength as	a1
-    {	65535: A
-255:	lengthOf ""\n""
-: roots
-, } ,	repeat repeatCount , charz trueish  `it's`
-    ,	} // a // b
-, char[]
-    //
-    tag @calculatedFrom( ""a\""b""
-    ) ,@calculatedFrom(""// no comment""
-)uint16 options1 `
-`
-    , } packet x_y_z
-{ @calculatedFrom( """ ++ [28040; 24687]%N ++ runes_of_ascii """  ) @tag( 0 )
-@lengthOf(
-falsey
-) zchar @calculatedFrom(
-    ""x y"" )
-, /// triple
-float64 stringy @lengthOf(
-    /// triple
-    matchKey
-// `tick` ""quote"" 'q'
-//x
-)// c
-, string_  ,@leftPad ( )
-    options1
-repeatCount`" ++ [233]%N ++ runes_of_ascii "` , }	packet
-    lengthOf
-    {// packet A { u8 x, }
-}
-")).
-Eval vm_compute in ("<<<M110>>>" ++ check (runes_of_ascii "//	t
-packet// `tick` ""quote"" 'q'
-crc {@tag( /// triple
-10
-) uint16/// triple
-matchKey @calculatedFrom( ""\" ++ [233]%N ++ runes_of_ascii """ ) , @calculatedFrom(
-""x y"" )
-u16
-    // a // b
-    Packet  @calculatedFrom(""" ++ [233]%N ++ runes_of_ascii "t" ++ [233]%N ++ runes_of_ascii """) ,string Pad
-    // @lengthOf(
-    @lengthOf(  roots) ,//x
-@tag( 42 ) repeat float{
-    match
-    // @lengthOf(
-    roots
-//	t
-//
-as Z9_
-    { 42: packetx // c
-, } // a // b
-, Pad { pack , uint32 u, repeat Z9_ {
-    packetx
-float ,
-    } , uint64 msg_type
-    `it's` ,
-} ,Header`" ++ [233]%N ++ runes_of_ascii "`
-    , //	t
-char[]stringy ,}	, match // packet A { u8 x, }
-u as a1 //	t
-{ [ 7
-]// " ++ [27880; 37322]%N ++ runes_of_ascii "
-:	zchar
-    ,[255,""a\""b"",  0123456789 , 4294967296
-    ,
-1
-,
-    42, 0 ]
-:Foo
-    [  ""{,}"" ] : a1 , ""// no comment""
-    :
-A ,0
-    : u8x, 255 : Packet
-}	, repeat i64 chars ,
-repeat char[ 0123456789 ]repeatCount
-,
-body  Foo, @calculatedFrom(
-""\n""
-    )char[]
-int
-    @lengthOf(	len
-    )  , @tag( 3) char[]
-A
-`doc`
-    ,
-}
-packet a1  { @rightPad( '0'  )
-    // `tick` ""quote"" 'q'
-    float // a // b
-@lengthOf(
-stringy
-    ) `doc`
-,} options
-    {	As	= 7 crc = ""{,}""
-    u =""it's"" zchar= '\x00'
-}
-")).
-Eval vm_compute in ("<<<M3210>>>" ++ check (runes_of_ascii "// top
-root
-    // c0
-packet // c1a
-  // c1b
-msg_type // c2a
-  // c2b
-{ // c3
-i64 // c4
-options1 // c5a
-  // c5b
-,
-    // c6
-@lengthOf( // c7a
-  // c7b
-f32a // c8
-) // c9
-repeat // c10
-uint16
-    // c11
-Foo
-    // c12
-, // c13a
-  // c13b
-@calculatedFrom(
-    // c14
-""x y""
-    // c15
-) // c16a
-  // c16b
-repeat int64 // c18a
-  // c18b
-pack // c19a
-  // c19b
-, // c20a
-  // c20b
-@leftPad // c21
-(
-    // c22
-' '
-    // c23
-) // c24a
-  // c24b
-uint8
-    // c25
-Foo , }
-    // c28
-packet rootA // c30a
-  // c30b
-{ // c31
-f32a // c32a
-  // c32b
-x
-    // c33
-`two words` // c34
-, char // c36
-asx // c37a
-  // c37b
-@lengthOf(
-    // c38
-falsey // c39a
-  // c39b
-) // c40a
-  // c40b
-`u8 x,` // c41a
-  // c41b
-, // c42
-@lengthOf( i64_
-    // c44
+    , @lengthOf(
+    Logon	) @tag(
+42 ) @lengthOf( Foo
 )
-    // c45
-uint16 // c46
-chars // c47a
-  // c47b
-, // c48
-@tag( // c49a
-  // c49b
-0 // c50a
-  // c50b
-) string
-    // c52
-_x
-    // c53
-@calculatedFrom(
-    // c54
-""abc""
-    // c55
-) // c56a
-  // c56b
-`// not a comment`
-    // c57
-, // c58
-} // c59a
-  // c59b
-")).
-Eval vm_compute in ("<<<M3539>>>" ++ check (runes_of_ascii "options {
-    StringPrefixLenType = u8;
-    ArrayPrefixLenType = u32;
-    FixedStringPadFromLeft = false;
-    FixedStringPadChar = ' ';
+    repeat//	t
+char[ 1	] u,
+// packet A { u8 x, }
+//	t
+i8 chars
+@calculatedFrom( ""a\""b""
+// @lengthOf(
+// trailing space 
+),	@calculatedFrom(""" ++ [128512]%N ++ runes_of_ascii """ /// triple
+) @calculatedFrom( ""`tick`""
+) f64 Logon
+    ,
+@lengthOf(  calculatedFrom
+    ) //
+repeatCount
+{
+    repeat Packet`two words` , match  i64_ as
+charz{""a\\"" :
+int[	""\" ++ [233]%N ++ runes_of_ascii """ , 0123456789
+    , """ ++ [28040; 24687]%N ++ runes_of_ascii """
+]
+    :
+Pad
+, 1: As,""CRC32""
+:	Header ,
+},  char[ 007 // packet A { u8 x, }
+]
+tag
+`doc` , repeat As`" ++ [233]%N ++ runes_of_ascii "` , // c
 }
-packet Party {
-    repeat i16 Qty,
-    repeat string Tail,
-    i8 OrderId,
-    i8 msgKind,
-}
-packet Ack {
-    Party,
-    repeat InRef20 {
-        Party,
-        int8 tag7,
-        char[5] OrderId,
-        zchar[7] Tail,
-        char[] count,
-        InPrice45 {
-            Party,
-            char[1] Px,
-        },
-    },
-    char[12] price,
-    int8 sym,
-}
-packet Reject {
-    repeat InPrice47 {
-        Party,
-    },
-    zchar[4] x,
-    repeat Ack,
-    zchar[2] Ref,
-    repeat Party,
-}
-packet Cancel {
-    Reject,
-    repeat string f1,
-    uint16 OrderId,
-    u8 Acct,
-    int8 msgKind,
-}
-root packet Fill {
-    u8 count,
-    char[] tag7,
-    zchar[7] Acct,
-    u32 OrderId,
-    u32 Note @lengthOf(Body),
-    match OrderId as Body {
-        106 : Cancel,
-        196 : Reject,
-        74 : Party,
-        75 : Ack,
-    },
-}
-")).
-Eval vm_compute in ("<<<M3865>>>" ++ check (runes_of_ascii "
-
-  packet chars 
-{@leftPad (
+,
+    MetaDataX @calculatedFrom("""")`line1
+line2`, // c
+} options{ _x=false
+As = zchar[ 65535
+]
+BodyLength= int64 o
+=	false ;
+calculatedFrom
+    =	'0' ;
+    } root	packet Packet { // @lengthOf(
+falsey Packet, @lengthOf(
+    BodyLength ) @lengthOf(uint8x
+) @rightPad (
+) string float	`// not a comment`, } 	 ")).
+Eval vm_compute in ("<<<M196>>>" ++ check (runes_of_ascii "packet
+a1
+    { @rightPad
+    ( ' '  ) repeat	a1 ,
+    //	t
+    repeat
+float32 i8i8	`two words`, @lengthOf( A ) float zchar ,@rightPad(
 '0'
-
-    ) char[] MetaDataX@lengthOf(  Foo ) 
-,
-	@lengthOf( 
-chars	) repeat
-    BodyLength
+)	uint32 o `doc`
+, @calculatedFrom( ""packet""
+    )	repeat
+asx `crlf
+line`//	t
+, @tag( 007 )
+@calculatedFrom(	""CRC32""
+)repeat uint64 A `line1
+line2` , @leftPad ( '\x00'
+)
+// packet A { u8 x, }
+//x
+string stringy `` , @rightPad( '\x00' ) @tag( 255 /// triple
+)
+body
+    @lengthOf( Z9_	)
+,match
+x_y_z
+// packet A { u8 x, }
+// " ++ [128512]%N ++ runes_of_ascii " emoji
+as
+falsey{""\" ++ [233]%N ++ runes_of_ascii """: options1
+, } ,Logon falsey
+// c
+// " ++ [27880; 37322]%N ++ runes_of_ascii "
+`say ""hi""`
+, } packet// " ++ [128512]%N ++ runes_of_ascii " emoji
+Foo { }options {
+// @lengthOf(
 // `tick` ""quote"" 'q'
+f32a
+=	""a\""b"" ;
+float= '0' ;  calculatedFrom
+    = 65535
+    ; msg_type= '0';
+    // trailing space 
+    A = """"
+} root packet
+string_ {
+match float as u128{ [ ""\n""
+]	:// trailing space 
+Packet , }
+    ,} packet charz { lengthOf @calculatedFrom(
+    // " ++ [128512]%N ++ runes_of_ascii " emoji
+    """ ++ [28040; 24687]%N ++ runes_of_ascii """)
 ,
-    @lengthOf(  MetaDataX )  @lengthOf(
-A 
-) uint8x// trailing space 
-	{
-	u16 
-Pad @lengthOf(
-    // a // b
+    @leftPad
+( ' ' ) repeat chars`" ++ [28040; 24687; 31867; 22411]%N ++ runes_of_ascii "`, match leftPad
+    as a1 {
+    ""`tick`"" :
+    string_ // c
+,
+// c
+// c
+10
+:
+    string_, 4294967296// a // b
+: Foo
+, } , }")).
+Eval vm_compute in ("<<<M165>>>" ++ check (runes_of_ascii "packet uint8x { @lengthOf( Pad )
+    Foo ,} root packet Foo  {
+char[] i64_
+    @calculatedFrom( ""a	b"" ) `u8 x,`
+    // @lengthOf(
+    , zchar[
+    // trailing space 
+    3]
+    tag
+@lengthOf( tag ), @lengthOf(	falsey) options1
+//x
+/// triple
+@lengthOf(  repeatCount ) ,
+string
+matchKey `crlf
+line` ,} packet metadata { //	t
+uint32
+    i8i8 , }
+root packet
+Header {
+@lengthOf( _x ) @lengthOf(
+A )metadata
+    tag
+    // trailing space 
+    `
+` ,x_y_z `tab	here`
+    ,
+    Pad // " ++ [128512]%N ++ runes_of_ascii " emoji
+, @calculatedFrom(
+    """ ++ [128512]%N ++ runes_of_ascii """ )
+    //x
+    repeat string f32a`crlf
+line`, string packetx	@calculatedFrom( ""a\\""
+)
+    , }  packet
+    // packet A { u8 x, }
+    u8x { pack, @calculatedFrom( ""// no comment"" // `tick` ""quote"" 'q'
+)packetx, match options1// trailing space 
+as chars { ""1"" :
+Logon
+// a // b
+// a // b
+, 7 :
+trueish } ,
+match asx  as
     /// triple
-charz  ) 
-`line1
-line2` 
-, i64_
+    Logon {	[ 3 ]: _x , [
+    ""// no comment"" , 7 , """ ++ [233]%N ++ runes_of_ascii "t" ++ [233]%N ++ runes_of_ascii """  ,""it's""
+,1 ]
+    : i8i8 // " ++ [27880; 37322]%N ++ runes_of_ascii "
+[
+/// triple
+// " ++ [27880; 37322]%N ++ runes_of_ascii "
+""1"" ] : T , } , } // a // b")).
+Eval vm_compute in ("<<<M3534>>>" ++ check (runes_of_ascii "
+
+  options  {
+    StringPrefixLenType
+=
+    u32
+
+    ; ArrayPrefixLenType
+= 
+u8 ;
+FixedStringPadFromLeft
+
+= false;
+
+    } packet  Logon { 
+i8
+venue ,int16
+	f1, zchar[ 8
+] Acct ,
+repeat	InNote16  {
+	InQty73	{float32
+    tag7 ,
+	} , f32
+Acct
+, zchar[5]
+
+    sym ,
+    }	,
+    uint16 Side2
+    ,i32 lastPx
+
+    ,
+}  packet
+
+Fill
+    {  repeat 
+InOrderid15
     {
 
-match
-i8i8 	 /// triple
-    as
-i8i8
-{  7  : calculatedFrom 255
-	:	x_y_z
+    zchar[
+	8
+
+    ] 
+sym , repeat
+
+    char[	2  ]
+
+    OrderId
+	, repeat Logon
+,	InQty82
+
+{	char[]	Tail  ,repeat
+
+Logon
 
 ,
-0123456789
+float64
 
-:
+    price, f64
 
-    rootA 
-""packet""
+Side2
 
-    :string_,0123456789: chars
+, },
+    char[
 
-, }
-        //x
+    12]venue
+,
 
-// " ++ [27880; 37322]%N ++ runes_of_ascii "
-	, } ,
+    char[
 
+    4 ]
+
+Px 
+,}
+
+    ,@rightPad
+
+    ('0'
+
+)
+
+char[  2  ]
+    venue ,
+
+InPrice99{  InAcct72 {
+
+    u8
+	pad0,	}  , u32
+OrderId, Logon
+
+    ,},  } root
+	packet
+
+Reject {
+zchar[  9 ] msgKind  ,  u32 
+venue  ,u16 seqNo@lengthOf(	Body
+) ,  match
+	venue as
+Body {
+    57
+
+:	Fill  ,
+    8
+	:Logon 
+,}
+    ,
+    u16
+	Tail	@calculatedFrom(
+
+""CRC32"" ),}
+")).
+Eval vm_compute in ("<<<M850>>>" ++ check (runes_of_ascii "packet Packet {
+match
+    a1
+    as calculatedFrom//
+{
+    // `tick` ""quote"" 'q'
+    00
+    : falsey""" ++ [233]%N ++ runes_of_ascii "t" ++ [233]%N ++ runes_of_ascii """ : string_ ,
+[	00 ] :o , ""it's"": u , //	t
+10 : BodyLength ""1"" : BodyLength
+, } ,}  root packet	calculatedFrom {  repeat
+    uint64
+    int `line1
+line2`
+,
+string rootA ``,
+    @lengthOf( i64_)leftPad@calculatedFrom( ""\" ++ [233]%N ++ runes_of_ascii """ )	`line1
+line2`  ,uint8 x_y_z // `tick` ""quote"" 'q'
+`" ++ [28040; 24687; 31867; 22411]%N ++ runes_of_ascii "`
+, } options {}
+MetaData crc
+{ pack	asx`" ++ [233]%N ++ runes_of_ascii "` , }packet
+    rootA { @lengthOf( x_y_z )repeat T Pad
+// a // b
+// " ++ [128512]%N ++ runes_of_ascii " emoji
+, string
+len ,
+match float as matchKey { ""a\""b"" : x
+    //	t
+    ,
+007 :
+calculatedFrom
+,
+    255 :// @lengthOf(
+crc , }
+,int32
+//x
+//
+float ,@leftPad ( ' ' ) @lengthOf(
+    stringy)  @calculatedFrom( ""`tick`"" )
+    repeat
+    float {
+zchar[ 00 ] crc @calculatedFrom(
+    ""1""
+    )`// not a comment` ,
+    //x
+    string stringy`doc`, } , i16
+asx `doc` ,
+    // `tick` ""quote"" 'q'
     }
-	, zchar[ 3
-] Header`two words`, i32 o,
-@tag(4294967296
+")).
+Eval vm_compute in ("<<<M1133>>>" ++ check (runes_of_ascii "  packet
+    stringy	{
+    @tag(//	t
+1) Logon @lengthOf( roots
+// @lengthOf(
+// " ++ [27880; 37322]%N ++ runes_of_ascii "
+) ,
+    @tag(4294967296
+) repeat
+leftPad
+    { match	metadata as // trailing space 
+u8x {
+4294967296: // " ++ [128512]%N ++ runes_of_ascii " emoji
+pack ""CRC32""	: f32a ,
+}  , } ,
+match Logon
+as float{ [ ""// no comment"" // packet A { u8 x, }
+] :
+    roots 0123456789 :Pad , } , repeat Foo
+//
+// c
+{ matchKey { zchar[ 4294967296] repeatCount
+    `{ , }`	, }
+,uint64 int @lengthOf( float ) ,
+match // packet A { u8 x, }
+asx as trueish { ""// no comment"" //	t
+:
+    lengthOf	,10
+    :As // `tick` ""quote"" 'q'
+, 3
+:
+calculatedFrom ,
+    [ 7 ,4294967296
+    ]
+:	leftPad,
+4294967296 :  BodyLength
+    ,} , },
+i8 Packet ,@calculatedFrom( """ ++ [128512]%N ++ runes_of_ascii """ )
+    Logon o , repeat u64
+asx , @calculatedFrom(
+""a\""b"" ) repeat
+    int8 MetaDataX ,
+@calculatedFrom( ""abc"" ) uint64 // trailing space 
+tag
+`line1
+line2`  ,	}
+")).
+Eval vm_compute in ("<<<M3689>>>" ++ check (runes_of_ascii "
+// `tick` ""quote"" 'q'
+		packet A	{ 
+	// `tick` ""quote"" 'q'
+    // c
 
-) pack `` ,
-    repeatCount
+  repeat	lengthOf // " ++ [128512]%N ++ runes_of_ascii " emoji
+	{ As
+
+    metadata
+
+    ,
+match
+pack
+
+as  // @lengthOf(
+	As {
+    [
+7
+    ]
+
+    :  //x
+	int ,
+
+    ""it's""
+:i64_
+    , ""a\""b""
+: // " ++ [27880; 37322]%N ++ runes_of_ascii "
+		string_, 
+[
+
+    00 , 4294967296 
+,
+
+""{,}"" ,	""" ++ [233]%N ++ runes_of_ascii "t" ++ [233]%N ++ runes_of_ascii """
+    ,
+
+    """ ++ [233]%N ++ runes_of_ascii "t" ++ [233]%N ++ runes_of_ascii """
+	,""abc""
+	,
+	1
+,
+1
+    ]
+:	Pad
+// @lengthOf(
+  }
+,leftPad x 
+
+// @lengthOf(
+    	//x
+
+  `" ++ [28040; 24687; 31867; 22411]%N ++ runes_of_ascii "`
+
+,  char[	65535 ]metadata
+, 
+}
+	, }packet a1
+    {
+}packet 	 //x
+  pack
+
+    { int
+	{i64_ 
+x_y_z	, // " ++ [128512]%N ++ runes_of_ascii " emoji
+  u8x
+
+    `say ""hi""`
+,
+    f32
+A
+	`u8 x,`
+, }	,}
+root 
+packet	falsey
 
 {
+	@tag(255 )	repeat float64	Logon,	float64
+    Foo  @lengthOf( 
+float
 
-    i8  // " ++ [128512]%N ++ runes_of_ascii " emoji
-	i64_
-    `
-`	,
-asx i64_	,crc  {repeat
+    )
+,
+}
 
-zchar[ 
-255]
+    options
+{
 
-repeatCount  // c
+    matchKey
+	// packet A { u8 x, }
+    =char[]
+;
+    tag = ' '
+
+    ; 
+i64_
+=
+""1""
+}
+
+")).
+Eval vm_compute in ("<<<M63>>>" ++ check (runes_of_ascii "// trailing space 
+options{
+    asx = """ ++ [233]%N ++ runes_of_ascii "t" ++ [233]%N ++ runes_of_ascii """ zchar = 7 i8i8=65535 ;	Pad =i8
+; } // a // b
+MetaData
+    string_  { //	t
+char[ 0 // packet A { u8 x, }
+]zchar ,// `tick` ""quote"" 'q'
+char[ 4294967296] msg_type ,
+u16
+MetaDataX `" ++ [233]%N ++ runes_of_ascii "`,} root packet Foo{	f64
+BodyLength
+@lengthOf(
+repeatCount ) ,
+repeat asx {
+char[ 00] stringy // `tick` ""quote"" 'q'
+@lengthOf( Foo)
+    ,  i8 string_,}
+    ,
+float64 i8i8 `say ""hi""` ,  @tag( 0 ) MetaDataX
+    {// " ++ [27880; 37322]%N ++ runes_of_ascii "
+repeat uint16 stringy
+,	repeat x_y_z , asx, } ,
+    @rightPad( '\x00' ) repeat
+    char[7
+] metadata
+// a // b
+// " ++ [27880; 37322]%N ++ runes_of_ascii "
+, i16 x
+, match falsey
+    as
+asx	{""a\""b""
+:
+    u ,} // @lengthOf(
+,// trailing space 
+@calculatedFrom(  """"//
+)
+match f32a
+as
+u8x {
+//x
+//
+""a\""b"":matchKey , } //
+,
+x `" ++ [233]%N ++ runes_of_ascii "`  ,char[
+65535 ]
+string_ `u8 x,` , }
+// c
+")).
+Eval vm_compute in ("<<<M3538>>>" ++ check (runes_of_ascii "options
+
+{	StringPrefixLenType = u16  ;ArrayPrefixLenType=u32;
+	FixedStringPadFromLeft
+	= false;  FixedStringPadChar = '0'  ;}
+
+    packet
+	Logout
+	{
+    f64
+
+f1	,i16
+
+    Note
+, @rightPad  ('\x00' )  char[
+
+    11	]	Flags,  }packet Cancel {float64
+
+msgKind
+,
+}packet
+Reject
+
+{
+InQty43
+
+    {
+    float32 sym
+, char[
+	10	]Tail
+,
+
+    uint8
+venue
+,uint16
+f1 
+,
+
+char[ 9
+
+    ] 
+Acct
+
+    ,
+}
+
+,	}
+
+packet
+	Trade {
+    char[] x
+
+,
+    zchar[ 
+6 ] 
+Note
 
 ,
 repeat
+    Reject
+, }  root  packet Order	{
+	Cancel
+    ,Logout ,
 
-uint8 Packet  ,	char  leftPad
-// packet A { u8 x, }
-		// `tick` ""quote"" 'q'
-
-	,uint32
-lengthOf @lengthOf(
-charz  ),	} 	 /// triple
-	,
-},
-    leftPad`` ,repeat int16 
-Pad 
-  //x
-, repeat
-
-    u
-	matchKey ,  }")).
-Eval vm_compute in ("<<<M3264>>>" ++ check (runes_of_ascii "// top
-options
-    // c0
-{
-    // c1
-chars
-    // c2
-=
-    // c3
-""a\\""
-    // c4
-}
-    // c5
-packet
-    // c6
-Z9_
-    // c7
-{
-    // c8
-match
-    // c9
-BodyLength
-    // c10
-as
-    // c11
-roots
-    // c12
-{
-    // c13
-""" ++ [28040; 24687]%N ++ runes_of_ascii """
-    // c14
-:
-    // c15
-falsey
-    // c16
-,
-    // c17
-00
-    // c18
-:
-    // c19
-u128
-    // c20
-0
-    // c21
-:
-    // c22
-len
-    // c23
-,
-    // c24
-007
-    // c25
-:
-    // c26
-f32a
-    // c27
-}
-    // c28
-,
-    // c29
-@tag(
-    // c30
-3
-    // c31
-)
-    // c32
-@calculatedFrom(
-    // c33
-""`tick`""
-    // c34
-)
-    // c35
-@leftPad
-    // c36
-(
-    // c37
-' '
-    // c38
-)
-    // c39
-string
-    // c40
-asx
-    // c41
-,
-    // c42
-string
-    // c43
-u
-    // c44
-@lengthOf(
-    // c45
-options1
-    // c46
-)
-    // c47
-,
-    // c48
-float32
-    // c49
-i64_
-    // c50
-@calculatedFrom(
-    // c51
-""a\""b""
-    // c52
-)
-    // c53
-,
-    // c54
-}
-    // c55
-")).
-Eval vm_compute in ("<<<M4144>>>" ++ check (runes_of_ascii "packet trueish {
-    char[7] chars @calculatedFrom(""" ++ [128512]%N ++ runes_of_ascii """),
-    char[] uint8x @calculatedFrom(""`tick`"") `
-    `,
-    int16 metadata @calculatedFrom(""" ++ [128512]%N ++ runes_of_ascii """) `doc`,
-    pack @lengthOf(stringy),
-    u8 float @lengthOf(leftPad),
-    @lengthOf(chars)
-    f32a trueish,
-    repeat zchar[4294967296] u,
-    @leftPad(' ')
-    @lengthOf(leftPad)
-    @tag(7)
-    repeat string u128,
-}
-
-packet Header {
-    u64 leftPad,
-    @lengthOf(u128)
-    repeat uint32 T,
-    @tag(4294967296)
-    repeat uint32 x_y_z ``,
-    T,
-    @tag(1)
-    zchar[7] Packet @lengthOf(f32a),// trailing space 
-    float32 lengthOf,// packet A { u8 x, }
-    i32 calculatedFrom `crlf
-    line`,
-    @tag(0123456789)
-    @tag(1)
-    @calculatedFrom(""" ++ [128512]%N ++ runes_of_ascii """)
-    float32 lengthOf @calculatedFrom(""\n"") `" ++ [233]%N ++ runes_of_ascii "`,
-    zchar[007] zchar @calculatedFrom(""abc"") `" ++ [28040; 24687; 31867; 22411]%N ++ runes_of_ascii "`,
-    int32 roots,
-}")).
-Eval vm_compute in ("<<<M3802>>>" ++ check (runes_of_ascii "packet a1 {
-    @lengthOf(packetx)
-    A @lengthOf(T) `tab	here`,
-    zchar[42] Header,// " ++ [128512]%N ++ runes_of_ascii " emoji
-    @leftPad('0')
-    match o as int {
-        1 : Logon,
-    },
-    repeat packetx `line1
-        line2`,
-    string x @calculatedFrom(""CRC32""),
-    i8 repeatCount `// not a comment`,
-    match i64_ as x_y_z {
-        3 : len,
-        4294967296 : u8x,
-        00 : crc,
-        [
-            10, 007, 3, 00, 0123456789,
-            0123456789, """ ++ [128512]%N ++ runes_of_ascii """
-        ] : tag,
-        42 : repeatCount,
-    },
-    @lengthOf(f32a)
-    @lengthOf(stringy)
-    @calculatedFrom(""\" ++ [233]%N ++ runes_of_ascii """)
-    repeat i64 As,
-    @rightPad()
-    repeat leftPad {
-        uint32 crc @calculatedFrom(""" ++ [233]%N ++ runes_of_ascii "t" ++ [233]%N ++ runes_of_ascii """),
-    },
-}
-
-MetaData Pad {
-    As pack,
-}
-
-root packet len {
-    @calculatedFrom(""\" ++ [233]%N ++ runes_of_ascii """)
-    int64 a1 @calculatedFrom(""CRC32""),
-}")).
-Eval vm_compute in ("<<<M3867>>>" ++ check (runes_of_ascii "MetaData msg_type {
-    string charz,
-    crc u8x,
-    u16 x_y_z `u8 x,`,
-    i64 zchar,
-}
-
-// @lengthOf(
-packet T {
-    @calculatedFrom(""a\\"")
-    uint16 chars @calculatedFrom(""x y"") `
-    `,
-}
-
-packet pack {
-}
-
-options {
-}
-
-packet trueish {
-    @calculatedFrom(""abc"")
-    match chars as lengthOf {
-        [4294967296] : a1,
-        [
-            7, 4294967296, 0, 65535, ""CRC32"",
-            ""1"", ""a\\"", ""{,}""
-        ] : a1,
-    },
-    string lengthOf `" ++ [28040; 24687; 31867; 22411]%N ++ runes_of_ascii "`,
-    @lengthOf(x)
-    match charz as a1 {
-        255 : Logon,
-    },
-    @calculatedFrom(""a	b"")
-    @tag(00)
-    @lengthOf(zchar)
-    body @lengthOf(msg_type),
-    MetaDataX @lengthOf(len) `a\`,
-    @rightPad('\x00')
-    @lengthOf(Packet)
-    string u128 `u8 x,`,
-    packetx @lengthOf(o),
-}")).
-Eval vm_compute in ("<<<M628>>>" ++ check (runes_of_ascii "root packet _x { //	t
-uint16
-_x, @tag( 7 ) repeat uint32 crc `line1
-line2`,match stringy as packetx
-{  255 : len , 255 //x
-:A ,
-    1 :
-    //
-    Z9_,
-""it's""
-    // trailing space 
-    :
-body[
-""{,}"" , ""packet"" // trailing space 
-, 0, ""\n"" ]:
-// `tick` ""quote"" 'q'
-// `tick` ""quote"" 'q'
-x , }
-,repeat
-    uint32
-Logon `tab	here` ,} packet string_
-    { string asx @lengthOf( float )
-// c
-// packet A { u8 x, }
-,@calculatedFrom(	""a\\""
-) match	chars as x { 42 : A
-    , """ ++ [28040; 24687]%N ++ runes_of_ascii """
-    : T ""a\\"" : tag //
-, 3 // trailing space 
-: i8i8
-[ 255 ] :MetaDataX /// triple
-,} ,
-float64 zchar	,@lengthOf( calculatedFrom )int
-falsey ,
-i16 Packet @calculatedFrom(
-    ""// no comment"") `say ""hi""`
-    ,@lengthOf( rootA
-)trueish ,}")).
-Eval vm_compute in ("<<<M284>>>" ++ check (runes_of_ascii "packet Pad
-{char[ 007] string_ ,// @lengthOf(
-@lengthOf( zchar
-)string rootA
-, @lengthOf(T ) char trueish @lengthOf(
-    zchar
-) `line1
-line2`, repeat f64 calculatedFrom , @calculatedFrom(""it's"" ) leftPad
-    `it's`
-    , stringy{
-int8 Packet @lengthOf( metadata
-)
-`tab	here`
-    ,
-A ,
-    match charz as uint8x{ 3
-:  MetaDataX ,
-    1
-    :
-    //	t
-    charz ""a	b""
-    :
-    //x
-    msg_type	,
-    //x
-    [
-0 , 10 , ""// no comment"" ,""\" ++ [233]%N ++ runes_of_ascii """
-] : A , // @lengthOf(
-""\n"" :
-trueish , },	},
-    @calculatedFrom( ""a\\"")
-char[ 7 ] u @calculatedFrom( ""a\\""),
-    //	t
-    @tag(	7) o
-{	As `it's`	,} ,} packet u	{
-}packet stringy {
-@tag(0123456789 )string pack @lengthOf( Pad), }")).
-Eval vm_compute in ("<<<M3606>>>" ++ check (runes_of_ascii "  options { 
-Packet = string
-} root 
-    //	t
-    	packet	trueish
-
-{ // a // b
-@calculatedFrom( 
-""packet"") i64 trueish
-`// not a comment`
-    , match
-MetaDataX as  rootA 
-        // trailing space 
-// a // b
-    {
-[
-""packet""
-	,
-    """ ++ [28040; 24687]%N ++ runes_of_ascii """	, // " ++ [27880; 37322]%N ++ runes_of_ascii "
-    	42]
-    :
-
-uint8x 0123456789 
-    // a // b
-
-	:
-int  
-      // trailing space 
-
-	//x
-,} ,  @rightPad (  '0' )
-match 
-metadata
-	as 
-uint8x {	255: 
-len 0 :Packet 
-,
-    ""a\""b"": i8i8	,} /// triple
-
-  ,
-match
-
-    msg_type
-as
-
-repeatCount {
-""CRC32"":
-
-x_y_z
-    , 
-[
-
-""a	b""
-,
-
-    ""\" ++ [233]%N ++ runes_of_ascii """,
-
-    7, 
-""it's"",	1
+u64
+Acct
     ,
 
-7 
-]:
-	    // c
-	  // trailing space 
-  As// @lengthOf(
-  ,
+    u32 
+OrderId
+,  match	OrderId	as
+	Body
+{ [
 
+    127,70]: 
+Reject
+,
+
+    177
+	: Trade
+,
+    58 :
+    Logout, 75
+	:  Cancel,
 }
+
+,	u32
+
+Tail  @calculatedFrom(  ""CRC32"")
 ,
-	} ")).
-Eval vm_compute in ("<<<M597>>>" ++ check (runes_of_ascii "  options{} root packet A
-{ @rightPad
-(
-) @lengthOf(u128 ) @calculatedFrom(
-    ""\" ++ [233]%N ++ runes_of_ascii """ ) repeat u {string body
-,
-zchar @lengthOf( roots
-)// " ++ [27880; 37322]%N ++ runes_of_ascii "
-,
-// @lengthOf(
-// @lengthOf(
-uint64
-Pad,// `tick` ""quote"" 'q'
-repeat metadata
-, } ,@tag(3 )	Pad
-@calculatedFrom( ""a\""b""
-    ) `two words` , @leftPad ( '\x00' ) T x`crlf
-line` ,
-    match BodyLength as crc
-{	[  007 ]
-:
-    uint8x,
-00 :u
-""a\""b"" :
-    tag , 00 :	options1 //	t
-, ""\" ++ [233]%N ++ runes_of_ascii """ :trueish	,[  65535 , ""x y"" ,
-"""" ,
-// packet A { u8 x, }
-// @lengthOf(
-3 ] : float,
-} ,} options{ x_y_z // " ++ [128512]%N ++ runes_of_ascii " emoji
+
+}")).
+Eval vm_compute in ("<<<M280>>>" ++ check (runes_of_ascii "options{
+    metadata
+= '0' int = 007 ; zchar
+// " ++ [27880; 37322]%N ++ runes_of_ascii "
+// `tick` ""quote"" 'q'
 =
-    42
-    //
+'\x00' ;
     }
-    options {
-zchar
-    = false /// triple
-; }
+    packet charz {
+@leftPad
+    ( '0'
+    ) @tag(
+42
+    // " ++ [128512]%N ++ runes_of_ascii " emoji
+    ) @calculatedFrom(
+    // " ++ [27880; 37322]%N ++ runes_of_ascii "
+    ""a\""b"" )char[]
+    packetx
+    @calculatedFrom(""\" ++ [233]%N ++ runes_of_ascii """
+    )`
+`
+,	match charz as msg_type  {
+//
+// trailing space 
+4294967296:
+o 0123456789: // packet A { u8 x, }
+trueish ,  ""// no comment"" : asx //x
+[ 65535 ,
+65535 ,
+    3,""a\""b""
+,	""a\\""	,""" ++ [28040; 24687]%N ++ runes_of_ascii """
+, 0123456789 ,
+    ""a	b"" ]
+: T
+,
+}
+, @rightPad (
+' '
+    )
+crc , repeat char[]
+    // packet A { u8 x, }
+    stringy  `a\` , }
+// " ++ [128512]%N ++ runes_of_ascii " emoji
+// " ++ [128512]%N ++ runes_of_ascii " emoji
+MetaData// c
+tag { uint64 metadata ,int64 trueish `{ , }`,
+uint32 a1 , f32 Packet `// not a comment` , }
 ")).
+Eval vm_compute in ("<<<M3496>>>" ++ check (runes_of_ascii "// top
+packet // c0
+P1 {
+    // c2
+u8 // c3
+a // c4
+, // c5
+}
+    // c6
+packet P2 // c8
+{ // c9
+P1
+    // c10
+, // c11
+} packet // c13
+P3
+    // c14
+{ P2 // c16a
+  // c16b
+, P1
+    // c18
+, }
+    // c20
+packet // c21a
+  // c21b
+P4
+    // c22
+{ repeat P3
+    // c25
+,
+    // c26
+P2 // c27
+, // c28
+}
+    // c29
+root packet P5
+    // c32
+{ // c33
+P4 // c34a
+  // c34b
+, // c35a
+  // c35b
+P3 // c36
+, // c37
+P1 // c38
+, u8
+    // c40
+K , // c42
+match K // c44
+as
+    // c45
+Body // c46a
+  // c46b
+{ // c47
+4 : // c49
+P4 // c50
+, 3
+    // c52
+:
+    // c53
+P3 , 2
+    // c56
+: // c57a
+  // c57b
+P2
+    // c58
+, // c59
+1
+    // c60
+: // c61
+P1 , } // c64
+, // c65
+}
+    // c66
+")).
+Eval vm_compute in ("<<<M4482>>>" ++ check (runes_of_ascii "root packet packetx {
+    match x as repeatCount {
+        65535 : i8i8,
+        10 : x_y_z,
+        42 : packetx,
+        0123456789 : metadata,
+        [""\" ++ [233]%N ++ runes_of_ascii """] : x_y_z,
+        ""a\\"" : i8i8,
+    },
+    stringy {
+        // c
+        stringy i64_,
+        repeat Header As `two words`,
+    },
+    repeat char[007] u8x `line1
+    line2`,
+    @lengthOf(charz)
+    // packet A { u8 x, }
+    @leftPad('0')
+    int16 BodyLength,
+    repeat float32 repeatCount,
+    match trueish as MetaDataX {
+        ""a	b"" : x,
+    },
+    char[0] matchKey @lengthOf(float),
+    @lengthOf(i64_)
+    @lengthOf(repeatCount)
+    // " ++ [27880; 37322]%N ++ runes_of_ascii "
+    @lengthOf(float)
+    f32 Z9_,
+}")).
+Eval vm_compute in ("<<<M3542>>>" ++ check (runes_of_ascii "
+options 
+{
+LittleEndian
+= true ;FixedStringPadFromLeft=true	;
+	FixedStringPadChar
+	=
+
+    '0'  ; } packet  Trade 
+{
+
+    string
+
+clOrdID
+
+, char[]
+Px ,
+    u32
+x	,	}
+packet Reject 
+{int32 Side2
+    ,
+
+    repeat
+
+char[ 3 ]	clOrdID
+	,
+i32 tag7
+
+,} 
+packet 
+Leg 
+{
+	}
+    root
+
+packet
+	Quote {
+string Side2,
+    string lastPx ,
+    InSym58
+    {int16
+
+OrderId 
+,Reject	,
+    i8
+    Qty  ,
+    i64  venue ,f32	Note 
+, }
+    , char[]
+count 
+,zchar[	9
+] 
+price,
+u16 Qty,	match	Qty 
+as
+
+    Body
+
+    { 69
+	: Leg 
+,
+
+    48 : Trade
+    ,
+
+51:Reject
+
+    ,
+}, 
+u16 Acct @calculatedFrom(	""CRC32""
+
+),
+    } ")).
 Eval vm_compute in ("<<<M460>>>" ++ check (runes_of_ascii "  options// `tick` ""quote"" 'q'
 {}	MetaData falsey {	rootA
 calculatedFrom
@@ -1614,639 +1350,700 @@ Packet { int32 As , u64 falsey , repeat matchKey{ int i64_ ,
 }  , }, @tag( 3
     )
 char[] options1 @lengthOf(	Header ) ,}")).
-Eval vm_compute in ("<<<M448>>>" ++ check (runes_of_ascii "packet int{ @rightPad (
-) @lengthOf(	zchar )
-    @tag(
-7 ) repeat pack ,
-    match f32a as
-    // @lengthOf(
-    float {255: Foo 7 :Pad
-[ ""it's"" , 007
-    ,
-    // `tick` ""quote"" 'q'
-    """", ""x y"" ,
-""packet"", ""a	b"" ]	: As
-    ,4294967296 : Packet ,""" ++ [28040; 24687]%N ++ runes_of_ascii """ : i64_ , } ,char[] Foo@lengthOf(	u8x )
-`it's`
-,
-    @tag( 007 ) u64 Packet , } options { u128
-    = ""packet""
-//	t
-// packet A { u8 x, }
-}root
-packet leftPad{
+Eval vm_compute in ("<<<M433>>>" ++ check (runes_of_ascii "options {
+    Packet = string } root
     //	t
-    } root packet msg_type
-{ // packet A { u8 x, }
-@leftPad
-    (
-'0' ) uint64 a1 // " ++ [128512]%N ++ runes_of_ascii " emoji
-, }
-// `tick` ""quote"" 'q'
-")).
-Eval vm_compute in ("<<<M159>>>" ++ check (runes_of_ascii "packet BodyLength
-    { repeat string As `{ , }`
-,	@tag(4294967296 ) match Pad as
-lengthOf { //	t
-007	: // `tick` ""quote"" 'q'
-i8i8 /// triple
-,""a\""b"": //x
-msg_type,	}, repeat
-    uint32 Z9_ , @tag( 00 )// `tick` ""quote"" 'q'
-charz
-    , string
-    // trailing space 
-    i8i8 // packet A { u8 x, }
-@lengthOf( BodyLength ) ,@calculatedFrom(
-    ""{,}""  )
-    // a // b
-    @leftPad// " ++ [27880; 37322]%N ++ runes_of_ascii "
-( )
-leftPad metadata  ,
-//
-// " ++ [128512]%N ++ runes_of_ascii " emoji
-string i8i8 ``
-    , uint64 trueish@calculatedFrom(
-""1""
-/// triple
-// " ++ [27880; 37322]%N ++ runes_of_ascii "
-) `
-`, }")).
-Eval vm_compute in ("<<<M4127>>>" ++ check (runes_of_ascii "root packet metadata {
-    repeat zchar[255] matchKey `line1
-    line2`,
-    @tag(0)
-    // " ++ [128512]%N ++ runes_of_ascii " emoji
-    match A as msg_type {
-        ""packet"" : len,
-        255 : roots,
-        """ ++ [233]%N ++ runes_of_ascii "t" ++ [233]%N ++ runes_of_ascii """ : leftPad,
-        ""CRC32"" : Z9_,
-        //	t
-    },
-    @leftPad(' ')
-    char[] Logon,//x
-    char[3] T `{ , }`,
-    uint64 metadata @calculatedFrom(""1""),
-    @rightPad()
-    match u as len {
-        [""\" ++ [233]%N ++ runes_of_ascii """, ""1""] : f32a,
-    },
-    u128 falsey,
-    @calculatedFrom(""" ++ [28040; 24687]%N ++ runes_of_ascii """)
-    As @lengthOf(falsey),
-}")).
-Eval vm_compute in ("<<<M4314>>>" ++ check (runes_of_ascii "options {
-    A = 4294967296
-    body = 0
-    tag = ""// no comment"";
-    Packet = 00;
-}
-
-root packet leftPad {
-}
-
-root packet rootA {
-    repeat charz {
-        repeatCount {
-            a1 {
-                repeat uint32 stringy ``,
-            },
-            /// triple
-            zchar[65535] tag,
-            i64_ metadata,
-            a1 {
-                repeat zchar[3] Foo `two words`,
-            },
-        },
-        string a1 @lengthOf(float),
-    },
-}")).
-Eval vm_compute in ("<<<M4323>>>" ++ check (runes_of_ascii "packet Pad {
-    @lengthOf(len)
-    zchar[10] int `a\`,
-    @tag(007)
-    string leftPad @lengthOf(string_),
-    char[0123456789] len,
-    u32 crc `two words`,
-}
-
-root packet u128 {
-    zchar[00] A @calculatedFrom(""\" ++ [233]%N ++ runes_of_ascii """) `line1
-        line2`,
-    @tag(10)
-    char[] len `" ++ [28040; 24687; 31867; 22411]%N ++ runes_of_ascii "`,
-    @leftPad()
-    @lengthOf(A)
-    match crc as msg_type {
-        7 : trueish,
-    },
-    @leftPad('0')
-    f32a @calculatedFrom(""// no comment"") `crlf
-        line`,
-}")).
-Eval vm_compute in ("<<<M3837>>>" ++ check (runes_of_ascii "packet Pad {
-    i16 A @calculatedFrom(""a\""b""),
-}
-
-packet roots {
-    @tag(65535)
-    repeat f32a {
-        char[00] a1 @calculatedFrom(""a\\""),
-        float32 x_y_z,
-        len {
-            // `tick` ""quote"" 'q'
-            // c
-            stringy u8x `
-                        `,
-        },
-        f32 Foo @calculatedFrom(""a\""b""),
-    },
-    @calculatedFrom(""1"")
-    u64 calculatedFrom,
-    u32 u8x,
-    u32 calculatedFrom ``,
-}")).
-Eval vm_compute in ("<<<M467>>>" ++ check (runes_of_ascii "root/// triple
-packet//	t
-options1 { float64 u128`" ++ [28040; 24687; 31867; 22411]%N ++ runes_of_ascii "`// a // b
-,	@tag(  0 ) //	t
-match int as
-    float { 4294967296 //
-:	metadata, ""a\\"" : x// packet A { u8 x, }
-, 3
-: u
-    // packet A { u8 x, }
-    ,
-// c
-// " ++ [128512]%N ++ runes_of_ascii " emoji
-0 :falsey } ,
-    } options
-// @lengthOf(
-//x
-{
-    As
-// " ++ [128512]%N ++ runes_of_ascii " emoji
-//
-=
+    packet  trueish{ // a // b
+@calculatedFrom( ""packet""	) i64 trueish`// not a comment`
+,match MetaDataX as rootA
+// trailing space 
 // a // b
-// `tick` ""quote"" 'q'
-float64 ;
-//	t
-//	t
-Logon	=""// no comment"" ; float = char[255 ] string_ =
-007;  u = '\x00' }
+{
+[ ""packet"" , """ ++ [28040; 24687]%N ++ runes_of_ascii """ ,// " ++ [27880; 37322]%N ++ runes_of_ascii "
+42] :uint8x 0123456789
+    // a // b
+    : int
+// trailing space 
+//x
+, }
+,
+    @rightPad ( '0' )match metadata as
+uint8x {
+255 :
+    len
+0
+:Packet,""a\""b"" :i8i8
+, } /// triple
+, match
+msg_type as repeatCount { ""CRC32"":
+x_y_z , [ ""a	b""
+, ""\" ++ [233]%N ++ runes_of_ascii """, 7, ""it's""
+,  1 , 7 ]
+:
+// c
+// trailing space 
+As // @lengthOf(
+,
+},
+    }
+
 ")).
-Eval vm_compute in ("<<<M3472>>>" ++ check (runes_of_ascii "// top
-packet // c0a
-  // c0b
-A { // c2
-u8 // c3a
-  // c3b
-a
-    // c4
+Eval vm_compute in ("<<<M1273>>>" ++ check (runes_of_ascii "MetaData
+lengthOf
+{
+// " ++ [27880; 37322]%N ++ runes_of_ascii "
+// a // b
+zchar[ 4294967296 ]
+Pad,	As // " ++ [128512]%N ++ runes_of_ascii " emoji
+trueish`" ++ [28040; 24687; 31867; 22411]%N ++ runes_of_ascii "` , u32 calculatedFrom
+`it's` ,zchar[// " ++ [128512]%N ++ runes_of_ascii " emoji
+255
+    ]packetx ,	string
+asx , int16 string_ ``
+    ,
+    } packet	Header { @calculatedFrom(""" ++ [233]%N ++ runes_of_ascii "t" ++ [233]%N ++ runes_of_ascii """) uint8 //	t
+lengthOf
+,string
+    //	t
+    int @calculatedFrom(	""x y"") `" ++ [28040; 24687; 31867; 22411]%N ++ runes_of_ascii "` ,match
+stringy as tag { [
+10 ] :
+    trueish //x
+10// `tick` ""quote"" 'q'
+:  int
+    /// triple
+    ,
+    // @lengthOf(
+    ""abc"" : o
+}	, @tag(3 )
+    zchar[ // `tick` ""quote"" 'q'
+255 ] i64_ , }
+
+")).
+Eval vm_compute in ("<<<M3260>>>" ++ check (runes_of_ascii "// top
+MetaData // c0
+x_y_z // c1
+{ // c2
+char // c3
+body // c4
 , // c5
-} // c6a
+f64 // c6
+i8i8 // c7
+`two words` // c8
+, // c9
+body // c10
+body // c11
+`" ++ [28040; 24687; 31867; 22411]%N ++ runes_of_ascii "` // c12
+, // c13
+} // c14
+root // c15
+packet // c16
+chars // c17
+{ // c18
+@lengthOf( // c19
+i64_ // c20
+) // c21
+chars // c22
+, // c23
+i8i8 // c24
+{ // c25
+falsey // c26
+@lengthOf( // c27
+stringy // c28
+) // c29
+`doc` // c30
+, // c31
+} // c32
+, // c33
+x // c34
+@lengthOf( // c35
+A // c36
+) // c37
+`crlf
+line` // c38
+, // c39
+} // c40
+")).
+Eval vm_compute in ("<<<M3285>>>" ++ check (runes_of_ascii "// top
+packet // c0
+trueish
+    // c1
+{ repeat // c3
+u32
+    // c4
+MetaDataX // c5a
+  // c5b
+`doc` // c6a
   // c6b
-packet B // c8a
-  // c8b
+, Header
+    // c8
 {
     // c9
-u16 b // c11
-, // c12a
-  // c12b
-} root // c14
-packet // c15
-P { // c17
-u8 // c18a
-  // c18b
-K , // c20
-match // c21
-K
-    // c22
-as // c23
-M { // c25
-1
-    // c26
-: // c27a
-  // c27b
-A // c28
-, 1 // c30
-: B // c32a
-  // c32b
-, // c33a
-  // c33b
-} // c34
-, // c35
-} ")).
-Eval vm_compute in ("<<<M3288>>>" ++ check (runes_of_ascii "// top
-packet
-    // c0
-u128 // c1
-{ // c2
-@lengthOf(
-    // c3
-body // c4a
-  // c4b
-) // c5
-match // c6
-x_y_z // c7
-as
-    // c8
-u // c9
-{ // c10a
+packetx // c10a
   // c10b
-""x y"" : // c12a
+o `u8 x,` // c12a
   // c12b
-i8i8 , // c14a
-  // c14b
-} // c15a
-  // c15b
+, // c13a
+  // c13b
+}
+    // c14
 ,
-    // c16
-@tag(
-    // c17
-255 // c18
-)
-    // c19
-char[] // c20
-roots // c21a
-  // c21b
-@lengthOf( int
-    // c23
-)
-    // c24
-, // c25
-} // c26
-")).
-Eval vm_compute in ("<<<M4150>>>" ++ check (runes_of_ascii "packet int {
-    string crc `{ , }`,
-    repeat uint8 roots `doc`,
-    u32 Logon `
-    `,
-}
-
-packet x_y_z {
-    metadata {
-        Pad @calculatedFrom(""it's"") `crlf
-        line`,
-        char[] asx,
-        Z9_ @lengthOf(x) `two words`,
-    },
-    tag x_y_z `it's`,
-    @calculatedFrom(""a	b"")
-    @calculatedFrom(""{,}"")
-    @rightPad('\x00')
-    int64 packetx ``,
-}")).
-Eval vm_compute in ("<<<M1351>>>" ++ check (runes_of_ascii "packet  rootA
-    // `tick` ""quote"" 'q'
-    { leftPad @calculatedFrom( ""`tick`""),
-    } root // trailing space 
-packet zchar {
-    char[	3 ] Packet ,	@tag( 3 ) zchar[ 00 ] lengthOf , repeat u128 {
-repeat int64 A ,/// triple
-}
-    ,  @leftPad ( '0' )
-@lengthOf( u
+    // c15
+@leftPad // c16
+( // c17a
+  // c17b
+'\x00' // c18a
+  // c18b
+) repeat char[
+    // c21
+0123456789
+    // c22
+] // c23
+repeatCount // c24
+,
+    // c25
+} // c26a
+  // c26b
+packet // c27
+Packet // c28
+{ // c29a
+  // c29b
+} ")).
+Eval vm_compute in ("<<<M805>>>" ++ check (runes_of_ascii "packet
+charz { @lengthOf(
+Z9_ ) @leftPad ( )	@tag(
+    7 )char[] metadata, repeat
+    float asx ,
+i8 a1 @calculatedFrom( ""a\\"" )  ,
+    leftPad
+@calculatedFrom( """ ++ [128512]%N ++ runes_of_ascii """ )	`doc` , uint16	trueish `u8 x,`, //x
+match
+    Logon as pack { 42	:  tag ,	0:falsey
+, [ 3 // c
+,	1
 //	t
-// c
-) @lengthOf(	repeatCount  ) asx {
-repeat int `" ++ [233]%N ++ runes_of_ascii "`,	zchar[ 3
-] u128
-,} , }
-
-")).
-Eval vm_compute in ("<<<M4146>>>" ++ check (runes_of_ascii "
-packet calculatedFrom
-{int16  asx @calculatedFrom( """"
-) ,
-    @calculatedFrom(""1""  ) 
-i8i8
-{
-
-i32
-    stringy @calculatedFrom(""a	b""
-)  `say ""hi""`	, i32 	 //x
-	uint8x , match Header
-    as Logon {
-00
-:	A,
-    },	match
-
+// " ++ [128512]%N ++ runes_of_ascii " emoji
+]: x_y_z // `tick` ""quote"" 'q'
+, }  ,
+repeat
 // `tick` ""quote"" 'q'
-repeatCount as
-	Packet
-	{""packet""
-:
-	// trailing space 
-	MetaDataX """ ++ [28040; 24687]%N ++ runes_of_ascii """:
-u 
-, }	,  },
+// trailing space 
+leftPad{
+char[]
+    leftPad  `tab	here`
+    , char[ 42 // a // b
+] x_y_z, } , }")).
+Eval vm_compute in ("<<<M3650>>>" ++ check (runes_of_ascii "MetaData rootA {
+    char[42] body `tab	here`,
+    string pack,
+    zchar[65535] A `it's`,
+    i64_ Pad,
+}
+
+MetaData leftPad {
+    int16 u,
+}
+
+packet trueish {
+    @tag(00)
+    char[42] MetaDataX `crlf
+    line`,
+    @lengthOf(asx)
+    chars charz,
+    @rightPad('0')
+    @lengthOf(a1)
+    char[] Packet @calculatedFrom(""x y"") `crlf
+    line`,
+    len i8i8,
+    @rightPad('\x00')
+    options1 {
+        x @lengthOf(Z9_),
+    },
+}")).
+Eval vm_compute in ("<<<M3873>>>" ++ check (runes_of_ascii "packet u128 {
+    // @lengthOf(
+    @lengthOf(u8x)
+    char[] lengthOf `it's`,
+    @calculatedFrom(""it's"")
+    u16 metadata @calculatedFrom(""// no comment"") `// not a comment`,
+    @lengthOf(int)
+    // @lengthOf(
+    repeat trueish float,
+    // c
+    char[00] falsey,
+    repeat zchar[3] falsey,
+    @lengthOf(pack)
+    zchar[007] packetx @lengthOf(len),
+    repeat char u `tab	here`,
+    Pad @lengthOf(leftPad),
+}")).
+Eval vm_compute in ("<<<M1341>>>" ++ check (runes_of_ascii "packet // packet A { u8 x, }
+len {repeat crc// c
+, zchar[
+//	t
+// packet A { u8 x, }
+7
+]	roots `" ++ [233]%N ++ runes_of_ascii "`
+,u{string_ x_y_z ,
+} ,	}	root packet len {falsey
+    `a\`,	@rightPad
+(' '
+)	@rightPad  ( )
+// packet A { u8 x, }
+// `tick` ""quote"" 'q'
+@tag( 007
+) repeat float	{ msg_type
+    `" ++ [28040; 24687; 31867; 22411]%N ++ runes_of_ascii "`,int8 i8i8 `say ""hi""`
+, match
+    u128 as crc {
+    007
+//	t
+// @lengthOf(
+:tag , } ,char[]  As `it's`
+, } ,
+    }
+")).
+Eval vm_compute in ("<<<M1284>>>" ++ check (runes_of_ascii "root packet
+Foo{ uint8x @lengthOf(// " ++ [128512]%N ++ runes_of_ascii " emoji
+zchar ) // `tick` ""quote"" 'q'
+,body { repeat zchar[
+4294967296 ]
+    tag , }
+, int8 _x
+`u8 x,`
+    , char[]
+T , Foo
+, @rightPad ( ' '
+    // packet A { u8 x, }
+    )	repeat uint8 stringy
+    ,zchar[ 255] calculatedFrom@calculatedFrom(""x y"") `" ++ [28040; 24687; 31867; 22411]%N ++ runes_of_ascii "` , float32
+len @lengthOf(
+// " ++ [27880; 37322]%N ++ runes_of_ascii "
+// `tick` ""quote"" 'q'
+i8i8 ) , uint32
+    Pad ,
+    }")).
+Eval vm_compute in ("<<<M544>>>" ++ check (runes_of_ascii "
+MetaData msg_type {string u128`` , string uint8x,} options{
+//	t
+// " ++ [27880; 37322]%N ++ runes_of_ascii "
+uint8x =
+    // c
+    ""packet"";
+// `tick` ""quote"" 'q'
+// a // b
+}MetaData trueish //	t
+{MetaDataX int
+,
+    int msg_type `{ , }` ,Foo lengthOf ,float32 calculatedFrom
+    ,
+int64 packetx,// " ++ [27880; 37322]%N ++ runes_of_ascii "
+uint32 Z9_ , }  MetaData string_
+    {
+uint32 string_ , }
+    packet BodyLength
+{	char[ 10] o
+, }")).
+Eval vm_compute in ("<<<M556>>>" ++ check (runes_of_ascii "packet len { i8
+    Pad @calculatedFrom( ""abc""
+)
+, } packet BodyLength{ repeat matchKey , @calculatedFrom(""1"" )
+    repeat uint32
+    // @lengthOf(
+    f32a
+`two words`, MetaDataX , zchar[0123456789
+    ] options1 @lengthOf( // c
+i8i8 ) `" ++ [233]%N ++ runes_of_ascii "` , @calculatedFrom(
+""" ++ [28040; 24687]%N ++ runes_of_ascii """ ) match u8x as _x	{
+//	t
+// packet A { u8 x, }
+""\" ++ [233]%N ++ runes_of_ascii """ :string_  ,
+10 :  Z9_, } , }
+")).
+Eval vm_compute in ("<<<M3977>>>" ++ check (runes_of_ascii "// trailing space 
+packet i64_ {
+    uint8 body,
+    @calculatedFrom(""\n"")
+    repeat BodyLength {
+        repeat crc len `" ++ [233]%N ++ runes_of_ascii "`,
+        As,
+        repeat char[] Header,
+    },
+    match T as T {
+        3 : repeatCount,
+    },
+    match tag as pack {
+        ""a	b"" : string_,
+    },
+    zchar[10] a1 ``,
+    @tag(3)
+    string int,
+}")).
+Eval vm_compute in ("<<<M3559>>>" ++ check (runes_of_ascii "options
+    {
+LittleEndian 
+=true;
+}packet
+    Logon
+{	u8  x
+
+    , }  packet
+
+Logout{
+u16 
+reason
+
+    , }	root
+    packet Frame
+    {  i32
+
+    Kind
+,
+i32  Kind2,
+match  Kind as  Body
+	{
+1:
+
+Logon ,	[
+
+    2 ,
+3 ,4  ]
+    :
+
+Logout ,100
+
+:Logon ,	}	, match
+Kind2
+
+as
+    Trailer {	0 :
+
+    Logout
+, } ,
+
+}
+")).
+Eval vm_compute in ("<<<M283>>>" ++ check (runes_of_ascii "root packet
+    i64_ {@tag(4294967296) match lengthOf as // " ++ [27880; 37322]%N ++ runes_of_ascii "
+charz	{ 1 :
+T , } ,repeat char[ 00]
+MetaDataX //x
+,
+match // @lengthOf(
+Foo as
+    chars{ // `tick` ""quote"" 'q'
+""" ++ [28040; 24687]%N ++ runes_of_ascii """:charz
+, } ,} root packet MetaDataX {
+@lengthOf( chars// " ++ [128512]%N ++ runes_of_ascii " emoji
+)
+uint16 Foo , Foo ,
+    } packet zchar { // trailing space 
+}")).
+Eval vm_compute in ("<<<M1510>>>" ++ check (runes_of_ascii "root packet Foo // " ++ [128512]%N ++ runes_of_ascii " emoji
+{ } options {
+    // a // b
+    tag // `tick` ""quote"" 'q'
+= //	t
+""""
+    ; u8x = zchar[0  ] }
+MetaData
+    int {zchar[ zchar[ 10]
+lengthOf	`` , i64 u8x`// not a comment` ,MetaDataX pack// `tick` ""quote"" 'q'
+`crlf
+line`
+, Logon charz `crlf
+line`
+    ,
+    // a // b
+    }
+")).
+Eval vm_compute in ("<<<M1530>>>" ++ check (runes_of_ascii "root packet Foo // " ++ [128512]%N ++ runes_of_ascii " emoji
+{ } options {
+    // a // b
+    tag // `tick` ""quote"" 'q'
+= //	t
+""""
+    ; u8x = zchar[0  ] }
+MetaData
+    int {zchar[ 10]
+lengthOf	`` `` , i64 u8x`// not a comment` ,MetaDataX pack// `tick` ""quote"" 'q'
+`crlf
+line`
+, Logon charz `crlf
+line`
+    ,
+    // a // b
+    }
+")).
+Eval vm_compute in ("<<<M4276>>>" ++ check (runes_of_ascii "MetaData
+	lengthOf {	float 
+rootA `
+`,
+i16 // " ++ [128512]%N ++ runes_of_ascii " emoji
+		x
+    , float32 msg_type
+, 
+lengthOf 
+	// a // b
+	// " ++ [27880; 37322]%N ++ runes_of_ascii "
+
+u8x
+`" ++ [28040; 24687; 31867; 22411]%N ++ runes_of_ascii "`	,}options
+    {
+
+packetx =
+    3; 
+options1=zchar[
+
+255
+]	; Pad
+=false 
+;repeatCount
+    =42  // @lengthOf(
+    	;
+chars 
+      /// triple
+  // a // b
+  =
+' '
+;
 }
 
 ")).
-Eval vm_compute in ("<<<M3869>>>" ++ check (runes_of_ascii "MetaData packetx {
-    float64 _x,
-    msg_type calculatedFrom `say ""hi""`,
-    metadata Foo `a\`,
-    falsey asx `two words`,
-    char[4294967296] calculatedFrom,
-    int32 options1,
+Eval vm_compute in ("<<<M1492>>>" ++ check (runes_of_ascii "root packet Foo // " ++ [128512]%N ++ runes_of_ascii " emoji
+{ } options {
+    // a // b
+    tag // `tick` ""quote"" 'q'
+= //	t
+""""
+    ; u8x = zchar[0  ] ,
+MetaData
+    int {zchar[ 10]
+lengthOf	`` , i64 u8x`// not a comment` ,MetaDataX pack// `tick` ""quote"" 'q'
+`crlf
+line`
+, Logon charz `crlf
+line`
+    ,
+    // a // b
+    }
+")).
+Eval vm_compute in ("<<<M1469>>>" ++ check (runes_of_ascii "root packet Foo // " ++ [128512]%N ++ runes_of_ascii " emoji
+{ } options {
+    // a // b
+    tag // `tick` ""quote"" 'q'
+= //	t
+""""
+    ; u8x  zchar[0  ] }
+MetaData
+    int {zchar[ 10]
+lengthOf	`` , i64 u8x`// not a comment` ,MetaDataX pack// `tick` ""quote"" 'q'
+`crlf
+line`
+, Logon charz `crlf
+line`
+    ,
+    // a // b
+    }
+")).
+Eval vm_compute in ("<<<M1539>>>" ++ check (runes_of_ascii "root packet Foo // " ++ [128512]%N ++ runes_of_ascii " emoji
+{ } options {
+    // a // b
+    tag // `tick` ""quote"" 'q'
+= //	t
+""""
+    ; u8x = zchar[0  ] }
+MetaData
+    int {zchar[ 10]
+lengthOf	`` ,  u8x`// not a comment` ,MetaDataX pack// `tick` ""quote"" 'q'
+`crlf
+line`
+, Logon charz `crlf
+line`
+    ,
+    // a // b
+    }
+")).
+Eval vm_compute in ("<<<M92>>>" ++ check (runes_of_ascii "root
+    packet packetx {	uint32
+x_y_z@calculatedFrom( """ ++ [233]%N ++ runes_of_ascii "t" ++ [233]%N ++ runes_of_ascii """ ) ,@calculatedFrom(
+    ""{,}"" // trailing space 
+)	float calculatedFrom
+`line1
+line2` ,u16 Packet @lengthOf( f32a ) ,
+char[] o `tab	here`, @calculatedFrom( ""x y""  )T {
+repeat i64 chars , } ,
+i16  roots	,
+} // @lengthOf(")).
+Eval vm_compute in ("<<<M4377>>>" ++ check (runes_of_ascii "options {
+    u128 = u32;
+    Z9_ = ""`tick`""
+    trueish = ""`tick`"";
+    // @lengthOf(
+    tag = '0'
 }
 
 options {
-    crc = '\x00';
-    charz = ""it's"";
-    BodyLength = ""\" ++ [233]%N ++ runes_of_ascii """
-    body = int8;
+    metadata = ""a	b"";
+    packetx = '\x00'// " ++ [128512]%N ++ runes_of_ascii " emoji
 }
 
-MetaData len {
-    char[42] Logon `tab	here`,
+options {
+    charz = 65535
+}
+
+options {
+    msg_type = zchar[10];
+    asx = false
+    tag = char[];
 }")).
-Eval vm_compute in ("<<<M3291>>>" ++ check (runes_of_ascii "// top
-packet // c0a
-  // c0b
-o // c1
+Eval vm_compute in ("<<<M885>>>" ++ check (runes_of_ascii "packet//	t
+u8x{
+// `tick` ""quote"" 'q'
+//x
+Pad @lengthOf(
+    _x
+// " ++ [27880; 37322]%N ++ runes_of_ascii "
+/// triple
+)
+,
+    //	t
+    }
+// `tick` ""quote"" 'q'
+// c
+packet body
+    { @rightPad ( '\x00'// `tick` ""quote"" 'q'
+) asx`it's`, }packet u128 { } packet stringy { @rightPad
+    ( ) chars, }
+")).
+Eval vm_compute in ("<<<M3560>>>" ++ check (runes_of_ascii "options {
+    LittleEndian = true;
+}
+packet Logon {
+    u8 x,
+    string user,
+}
+packet Logout {
+    u16 reason,
+}
+packet Empty {
+}
+root packet Frame {
+    u16 MsgType,
+    @lengthOf(Body) u8 BodyLen,
+    u8 flags,
+    Logon Body,
+    u32 trailer,
+}
+")).
+Eval vm_compute in ("<<<M3213>>>" ++ check (runes_of_ascii "packet Logon // c1a
+  // c1b
 { // c2a
   // c2b
-@tag( // c3a
-  // c3b
-42 // c4a
-  // c4b
-)
-    // c5
-repeat
-    // c6
-x { char[ // c9a
-  // c9b
-0123456789 // c10
-] // c11a
-  // c11b
-i64_ // c12a
-  // c12b
-,
-    // c13
-} ,
+@tag( 42 // c4
+) // c5
+@rightPad (
+    // c7
+' ' ) @leftPad
+    // c10
+( )
+    // c12
+repeat // c13
+trueish
+    // c14
+{
     // c15
-} options // c17a
-  // c17b
-{ // c18a
-  // c18b
-} // c19a
-  // c19b
-")).
-Eval vm_compute in ("<<<M1495>>>" ++ check (runes_of_ascii "root packet Foo // " ++ [128512]%N ++ runes_of_ascii " emoji
-{ } options {
-    // a // b
-    tag // `tick` ""quote"" 'q'
-= //	t
-""""
-    ; u8x = zchar[0  ] }
-MetaData MetaData
-    int {zchar[ 10]
-lengthOf	`` , i64 u8x`// not a comment` ,MetaDataX pack// `tick` ""quote"" 'q'
-`crlf
-line`
-, Logon charz `crlf
-line`
-    ,
-    // a // b
-    }
-")).
-Eval vm_compute in ("<<<M1612>>>" ++ check (runes_of_ascii "root packet Foo // " ++ [128512]%N ++ runes_of_ascii " emoji
-{ } options {
-    // a // b
-    tag // `tick` ""quote"" 'q'
-= //	t
-""""
-    ; u8x = zchar[0  ] }
-MetaData
-    int {'1' zchar[ 10]
-lengthOf	`` , i64 u8x`// not a comment` ,MetaDataX pack// `tick` ""quote"" 'q'
-`crlf
-line`
-, Logon charz `crlf
-line`
-    ,
-    // a // b
-    }
-")).
-Eval vm_compute in ("<<<M1547>>>" ++ check (runes_of_ascii "root packet Foo // " ++ [128512]%N ++ runes_of_ascii " emoji
-{ } options {
-    // a // b
-    tag // `tick` ""quote"" 'q'
-= //	t
-""""
-    ; u8x = zchar[0  ] }
-MetaData
-    int {zchar[ 10]
-lengthOf	`` , i64 65535`// not a comment` ,MetaDataX pack// `tick` ""quote"" 'q'
-`crlf
-line`
-, Logon charz `crlf
-line`
-    ,
-    // a // b
-    }
-")).
-Eval vm_compute in ("<<<M1436>>>" ++ check (runes_of_ascii "root packet Foo // " ++ [128512]%N ++ runes_of_ascii " emoji
-{ } { options
-    // a // b
-    tag // `tick` ""quote"" 'q'
-= //	t
-""""
-    ; u8x = zchar[0  ] }
-MetaData
-    int {zchar[ 10]
-lengthOf	`` , i64 u8x`// not a comment` ,MetaDataX pack// `tick` ""quote"" 'q'
-`crlf
-line`
-, Logon charz `crlf
-line`
-    ,
-    // a // b
-    }
-")).
-Eval vm_compute in ("<<<M1596>>>" ++ check (runes_of_ascii "root packet Foo // " ++ [128512]%N ++ runes_of_ascii " emoji
-{ } options {
-    // a // b
-    tag // `tick` ""quote"" 'q'
-= //	t
-""""
-    ; u8x = zchar[0  ] }
-MetaData
-    int {zchar[ 10]
-lengthOf	`` , i64 u8x`// not a comment` ,MetaDataX pack// `tick` ""quote"" 'q'
-`crlf
-line`
-, Logon charz `crlf
-line`
-    }
-    // a // b
-    ,
-")).
-Eval vm_compute in ("<<<M655>>>" ++ check (runes_of_ascii "
-packet Z9_
-{ i8 x_y_z @lengthOf( u128 // packet A { u8 x, }
-)	, }packet stringy
-{
-@rightPad ( '0'
-) match repeatCount
-as Foo
-    {007 : float
-    }
-,@tag( 0 )repeat	zchar[ 4294967296 ] zchar `" ++ [233]%N ++ runes_of_ascii "` ,
-}MetaData roots {  u8x Pad
-`u8 x,` , uint8 packetx
+string
+    // c16
+T
+    // c17
+, }
+    // c19
 ,
-/// triple
-// packet A { u8 x, }
-}
-")).
-Eval vm_compute in ("<<<M1122>>>" ++ check (runes_of_ascii "root packet u8x { Packet	{
-    repeat i32 tag , } , match  A
-    as Logon {00: _x
-, } , int8 i8i8
-@lengthOf( metadata
-) ,	string
-lengthOf `
-`	,
-float32	calculatedFrom
-`two words`,}packet a1
-{
-Pad rootA , }  MetaData crc { char[ 007	] As`a\` ,
-u8x
-metadata  , roots lengthOf
-    ,	}
-")).
-Eval vm_compute in ("<<<M3623>>>" ++ check (runes_of_ascii "
+    // c20
+} ")).
+Eval vm_compute in ("<<<M3567>>>" ++ check (runes_of_ascii "options{ roots =u8 f32a
+	=
+    '\x00'	BodyLength= """ ++ [28040; 24687]%N ++ runes_of_ascii """
+    }  MetaData// a // b
+	packetx
 
-  // top
-  packet 	 // c0
-	o// c1
-  	{// c2
-@tag( 	 // c3
-42	// c4
-  	) 	 // c5
-    repeat	// c6
-x  // c7
-  	{ // c8
-	char[ // c9
+{	i32	options1 ,
 
-  0123456789 // c10
-    	] // c11
-i64_ // c12
-, // c13
-    } 	 // c14
-  , 	 // c15
-	} 	 // c16
-options 	 // c17
-    { // c18
-	}	// c19")).
-Eval vm_compute in ("<<<M560>>>" ++ check (runes_of_ascii "options { lengthOf
-    = 7 u8x // " ++ [27880; 37322]%N ++ runes_of_ascii "
-= true  ;
-matchKey =
-65535 ;// trailing space 
-As // " ++ [27880; 37322]%N ++ runes_of_ascii "
-=
-    4294967296
-    ;
-    packetx
-=
-    true
-    ;}packet
-Foo {@lengthOf( u8x /// triple
-) float32 trueish , repeat
-char[] crc// " ++ [128512]%N ++ runes_of_ascii " emoji
-, repeat int,} packet As { }
-")).
-Eval vm_compute in ("<<<M1593>>>" ++ check (runes_of_ascii "root packet Foo // " ++ [128512]%N ++ runes_of_ascii " emoji
-{ } options {
-    // a // b
-    tag // `tick` ""quote"" 'q'
-= //	t
-""""
-    ; u8x = zchar[0  ] }
-MetaData
-    int {zchar[ 10]
-lengthOf	`` , i64 u8x`// not a comment` ,MetaDataX pack// `tick` ""quote"" 'q'
-`crlf
-line`
-, Logon charz")).
-Eval vm_compute in ("<<<M352>>>" ++ check (runes_of_ascii "
-root packet
+    zchar[
+
+    1 
+]  u8x 	 // @lengthOf(
+	`doc`  ,
+	zchar[ 7	] matchKey 	 // " ++ [27880; 37322]%N ++ runes_of_ascii "
+
+,
+
+int8
+
+    As `crlf
+line` , 
+}")).
+Eval vm_compute in ("<<<M771>>>" ++ check (runes_of_ascii "packet Logon { @lengthOf( Pad
+    ) int{ match matchKey
+as
+Pad { ""CRC32"" :
+body
+,
+    }
+    ,  len
     // `tick` ""quote"" 'q'
-    BodyLength { metadata
-/// triple
-// `tick` ""quote"" 'q'
-{
-calculatedFrom,zchar[ 007 ] msg_type@lengthOf( int )
-`say ""hi""` , chars uint8x , string
-As @calculatedFrom( ""a	b""
-)`
-` ,/// triple
-} ,  }
+    @lengthOf(// `tick` ""quote"" 'q'
+chars )
+    /// triple
+    , float
+@lengthOf( Foo ), } , }
 ")).
-Eval vm_compute in ("<<<M4046>>>" ++ check (runes_of_ascii "MetaData charz{
-zchar[ 00
-    ]leftPad
-	`tab	here`	,
-
-    zchar[	//x
-    007 ] // " ++ [27880; 37322]%N ++ runes_of_ascii "
-    	matchKey , crc matchKey	,
-char[1
-// " ++ [27880; 37322]%N ++ runes_of_ascii "
-// a // b
-  	] 
-	    // `tick` ""quote"" 'q'
-  //	t
-x_y_z
-    ,
-	string_ matchKey	`say ""hi""`
-
-,	}
-")).
-Eval vm_compute in ("<<<M2308>>>" ++ check (runes_of_ascii "MetaData Packet { }packet	asx  { @lengthOf( asx) falsey`crlf
+Eval vm_compute in ("<<<M2328>>>" ++ check (runes_of_ascii "MetaData Packet { }packet	asx  { @lengthOf( asx) falsey`crlf
 line`
 ,
     }
     packet x	{uint32// @lengthOf(
-rootA	@lengthOf(u32 options1 `say ""hi""` , @tag( 7
+rootA	,u32 options1 `say ""hi""` @tag( @tag( 7
     )// packet A { u8 x, }
 msg_type @lengthOf(
 stringy	)	, }
 
 ")).
-Eval vm_compute in ("<<<M890>>>" ++ check (runes_of_ascii "MetaData pack
-{
-    f64 msg_type ,
-    zchar[4294967296
-    ] Z9_
-, repeatCount chars `two words`, // " ++ [27880; 37322]%N ++ runes_of_ascii "
-} packet options1 {}
-packet options1// " ++ [128512]%N ++ runes_of_ascii " emoji
-{ u128
-// trailing space 
-/// triple
-A
-    ,  repeatCount tag , }
-")).
-Eval vm_compute in ("<<<M2306>>>" ++ check (runes_of_ascii "MetaData Packet { }packet	asx  { @lengthOf( asx) falsey`crlf
+Eval vm_compute in ("<<<M2287>>>" ++ check (runes_of_ascii "MetaData Packet { }packet	asx  { @lengthOf( asx) falsey`crlf
 line`
 ,
     }
-    packet x	{uint32// @lengthOf(
-rootA	, ,u32 options1 `say ""hi""` , @tag( 7
+    packet {	x uint32// @lengthOf(
+rootA	,u32 options1 `say ""hi""` , @tag( 7
     )// packet A { u8 x, }
 msg_type @lengthOf(
 stringy	)	, }
 
 ")).
-Eval vm_compute in ("<<<M2222>>>" ++ check (runes_of_ascii "MetaData Packet } {packet	asx  { @lengthOf( asx) falsey`crlf
+Eval vm_compute in ("<<<M2292>>>" ++ check (runes_of_ascii "MetaData Packet { }packet	asx  { @lengthOf( asx) falsey`crlf
+line`
+,
+    }
+    packet x	uint32{// @lengthOf(
+rootA	,u32 options1 `say ""hi""` , @tag( 7
+    )// packet A { u8 x, }
+msg_type @lengthOf(
+stringy	)	, }
+
+")).
+Eval vm_compute in ("<<<M2335>>>" ++ check (runes_of_ascii "MetaData Packet { }packet	asx  { @lengthOf( asx) falsey`crlf
+line`
+,
+    }
+    packet x	{uint32// @lengthOf(
+rootA	,u32 options1 `say ""hi""` , @tag( 
+    )// packet A { u8 x, }
+msg_type @lengthOf(
+stringy	)	, }
+
+")).
+Eval vm_compute in ("<<<M2216>>>" ++ check (runes_of_ascii "MetaData  { }packet	asx  { @lengthOf( asx) falsey`crlf
 line`
 ,
     }
@@ -2257,525 +2054,522 @@ msg_type @lengthOf(
 stringy	)	, }
 
 ")).
-Eval vm_compute in ("<<<M1215>>>" ++ check (runes_of_ascii "packet lengthOf {
-repeat  lengthOf {
-    charz `
-` , string
-stringy,a1{	BodyLength , }
-, }
-    , pack Logon,	@rightPad (  ) zchar[007
-]
-x , } packet	Header  {@calculatedFrom( """ ++ [128512]%N ++ runes_of_ascii """
-    ) Logon`it's` ,} options { }")).
-Eval vm_compute in ("<<<M1002>>>" ++ check (runes_of_ascii "options
-    {roots =
-    uint8 ;
-    asx= ' '
-    // a // b
-    ; }
-options
-    // a // b
-    { }root packet  Packet { @lengthOf(T )@calculatedFrom(""abc""  ) @calculatedFrom( ""1"" )A // c
-lengthOf, }
-/// triple
-")).
-Eval vm_compute in ("<<<M839>>>" ++ check (runes_of_ascii "packet Z9_ { i32 body
-,	u64 u8x @lengthOf(
-    // trailing space 
-    x_y_z ) ,@lengthOf( u128
-    ) zchar[
-    00 ] stringy,
-repeat uint8
-leftPad , } packet matchKey { } // @lengthOf(
-packet pack //
-{}
-")).
-Eval vm_compute in ("<<<M166>>>" ++ check (runes_of_ascii "packet u128 {
-@rightPad (
-    ' '
-    //x
-    )// c
-Packet , f64
-//
-// @lengthOf(
-Pad `it's` , }packet i64_{ } packet trueish { @leftPad	( '\x00')leftPad
-@calculatedFrom( // " ++ [27880; 37322]%N ++ runes_of_ascii "
-""`tick`"" ) `u8 x,` , }
-")).
-Eval vm_compute in ("<<<M4352>>>" ++ check (runes_of_ascii "//	t
-
-MetaData
-    asx
-{
-	char[]asx
-	,x
-	_x
-
+Eval vm_compute in ("<<<M2320>>>" ++ check (runes_of_ascii "MetaData Packet { }packet	asx  { @lengthOf( asx) falsey`crlf
+line`
 ,
     }
-    root
-    packet
-
-    lengthOf  {
-@tag( 10
-	)@rightPad 
-(	'0') 
-@rightPad
-	(  '0'
-)// " ++ [128512]%N ++ runes_of_ascii " emoji
-  	u32
-
-    BodyLength
-    , 	 //	t
-}
+    packet x	{uint32// @lengthOf(
+rootA	,u32 options1  , @tag( 7
+    )// packet A { u8 x, }
+msg_type @lengthOf(
+stringy	)	, }
 
 ")).
-Eval vm_compute in ("<<<M461>>>" ++ check (runes_of_ascii "root packet msg_type {
-float32 trueish
-    , uint16// @lengthOf(
-metadata , @lengthOf(  o ) // a // b
-@lengthOf( _x) @calculatedFrom( """" )Z9_
-    x_y_z,
-zchar[ 3]zchar	`tab	here`,
-    }
-")).
-Eval vm_compute in ("<<<M3624>>>" ++ check (runes_of_ascii "// top
-packet u128 {
-    @lengthOf(body)
-    // c5
-    match x_y_z as u {
-        // c10
-        ""x y"" : i8i8,
-    },
-    @tag(255)
-    // c19
-    char[] roots @lengthOf(int),
-}")).
-Eval vm_compute in ("<<<M960>>>" ++ check (runes_of_ascii "// packet A { u8 x, }
-packet  BodyLength  {
-    @tag( 255 ) repeat
-uint64 f32a
-    , }packet
-chars { }
-MetaData zchar { char[] tag`a\` ,
-    body Logon `tab	here`	, }
-")).
-Eval vm_compute in ("<<<M3848>>>" ++ check (runes_of_ascii "root packet A {
-    @lengthOf(calculatedFrom)
-    @tag(65535)
-    charz @lengthOf(charz),
-}
-
+Eval vm_compute in ("<<<M1>>>" ++ check (runes_of_ascii "// c
 options {
-    crc = 65535
-}
+    lengthOf = false Logon =
+    false ;
+} MetaData lengthOf
+{ // " ++ [128512]%N ++ runes_of_ascii " emoji
+float32 i8i8, }
+root // `tick` ""quote"" 'q'
+packet roots
+{  zchar[
+7	] f32a
+    // trailing space 
+    , }
+")).
+Eval vm_compute in ("<<<M1352>>>" ++ check (runes_of_ascii "// packet A { u8 x, }
+MetaData T {
+rootA MetaDataX , rootA pack
+    // `tick` ""quote"" 'q'
+    ,
+    int8 zchar ,string trueish  `line1
+line2`	, u16 metadata `say ""hi""`
+, matchKey
+f32a ,  }
+")).
+Eval vm_compute in ("<<<M3960>>>" ++ check (runes_of_ascii "root
+packet
+    // c1
 
-options {
-    leftPad = 1
-    A = true;
-}")).
-Eval vm_compute in ("<<<M3904>>>" ++ check (runes_of_ascii "packet A {
-    match k as n {
-        [
-            1, 22, 007, 4, 5,
-            66, 7, 8, 9, 10,
-            11, 12
-        ] : B,
-        2 : C,
-    },
-}")).
-Eval vm_compute in ("<<<M833>>>" ++ check (runes_of_ascii "options{ options1	=""\" ++ [233]%N ++ runes_of_ascii """ x =u64 Z9_= '0' calculatedFrom=	char[] ; } root	packet trueish
-    { } packet BodyLength
-    { @leftPad ( )
-u64 _x ,
-    }
+  P 	 // c2
+    { u8 // c4
+s_u8	// c5
+
+  ,	// c6
+repeat	// c7
+		u8 	 // c8
+
+  r_u8
+, u16// c11
+
+b_len
+    // c12
+	  ,  // c13a
+
+// c13b
+
+	} 
+	    // c14
 ")).
-Eval vm_compute in ("<<<M1061>>>" ++ check (runes_of_ascii "MetaData //
-u128 { x_y_z x_y_z `tab	here`, string
-// c
-/// triple
-charz// a // b
-, i64 roots`{ , }`
-    ,/// triple
-Logon//	t
-packetx ,
-    }
-")).
-Eval vm_compute in ("<<<M660>>>" ++ check (runes_of_ascii "MetaData tag {
-} MetaData
-pack
-{// packet A { u8 x, }
-} options	{
-MetaDataX='\x00' ;
-leftPad
-// `tick` ""quote"" 'q'
-//x
-= ""{,}"" ; }
-// c
-")).
-Eval vm_compute in ("<<<M143>>>" ++ check (runes_of_ascii "options { msg_type = 00 string_ =
-// `tick` ""quote"" 'q'
-// c
-0 x
-=
+Eval vm_compute in ("<<<M3391>>>" ++ check (runes_of_ascii "// top
+MetaData
+    // c0
+_x
+    // c1
+{
+    // c2
 zchar[
-255 ] ;leftPad =false ;f32a // @lengthOf(
-=
-007 ; // " ++ [27880; 37322]%N ++ runes_of_ascii "
+    // c3
+4294967296
+    // c4
+]
+    // c5
+lengthOf
+    // c6
+`// not a comment`
+    // c7
+,
+    // c8
 }
+    // c9
 ")).
-Eval vm_compute in ("<<<M1206>>>" ++ check (runes_of_ascii "options
-    {
-// " ++ [27880; 37322]%N ++ runes_of_ascii "
-// trailing space 
-crc
-    =
-'\x00'
-}packet len {}
-    packet
-    // " ++ [27880; 37322]%N ++ runes_of_ascii "
-    repeatCount { } // trailing space ")).
-Eval vm_compute in ("<<<M1728>>>" ++ check (runes_of_ascii "root packet /// triple
-root%A {	i32
-MetaDataX@calculatedFrom( ""CRC32"" ) `line1
-line2` , } MetaData BodyLength {
-u8
-rootA, } // c")).
-Eval vm_compute in ("<<<M4290>>>" ++ check (runes_of_ascii "root packet roots {
-    BodyLength asx,
-    a1,
-    @tag(7)
-    zchar[42] BodyLength,// " ++ [27880; 37322]%N ++ runes_of_ascii "
-    x_y_z `u8 x,`,
-    f64 packetx,
+Eval vm_compute in ("<<<M1548>>>" ++ check (runes_of_ascii "root packet Foo // " ++ [128512]%N ++ runes_of_ascii " emoji
+{ } options {
+    // a // b
+    tag // `tick` ""quote"" 'q'
+= //	t
+""""
+    ; u8x = zchar[0  ] }
+MetaData
+    int {zchar[ 10]
+lengthOf	`` , i64")).
+Eval vm_compute in ("<<<M1538>>>" ++ check (runes_of_ascii "root packet Foo // " ++ [128512]%N ++ runes_of_ascii " emoji
+{ } options {
+    // a // b
+    tag // `tick` ""quote"" 'q'
+= //	t
+""""
+    ; u8x = zchar[0  ] }
+MetaData
+    int {zchar[ 10]
+lengthOf	``")).
+Eval vm_compute in ("<<<M1248>>>" ++ check (runes_of_ascii "MetaData u128{ zchar asx
+    /// triple
+    , As chars`" ++ [28040; 24687; 31867; 22411]%N ++ runes_of_ascii "`,
+    char[]repeatCount
+    `doc` , u64 body , string Packet `say ""hi""` ,	body MetaDataX , }
+")).
+Eval vm_compute in ("<<<M93>>>" ++ check (runes_of_ascii "MetaData  falsey { i64
+    A // " ++ [27880; 37322]%N ++ runes_of_ascii "
+, string
+Header
+,	zchar[	10 ]
+Foo `" ++ [28040; 24687; 31867; 22411]%N ++ runes_of_ascii "`
+    // @lengthOf(
+    ,packetx
+    body, f32a  MetaDataX `it's`,  }
+")).
+Eval vm_compute in ("<<<M3946>>>" ++ check (runes_of_ascii "packet string_ {
+    metadata @lengthOf(T),
+    @lengthOf(x)
+    Logon @calculatedFrom(""""),
+    @calculatedFrom(""a	b"")
+    x_y_z `say ""hi""`,
 }")).
-Eval vm_compute in ("<<<M1632>>>" ++ check (runes_of_ascii "root u16 /// triple
+Eval vm_compute in ("<<<M615>>>" ++ check (runes_of_ascii "root packet a1	{ repeat T`it's`	,@calculatedFrom( ""a\""b"" ) repeat char[]metadata , float64 roots `crlf
+line` ,f64 Logon `doc` , }
+// c
+")).
+Eval vm_compute in ("<<<M1721>>>" ++ check (runes_of_ascii "root @tag packet /// triple
 rootA {	i32
 MetaDataX@calculatedFrom( ""CRC32"" ) `line1
 line2` , } MetaData BodyLength {
 u8
 rootA, } // c")).
-Eval vm_compute in ("<<<M1806>>>" ++ check (runes_of_ascii "packet
-    Pad // a // b
-{ i8i8 @calculatedFrom( ""a	b"" ""a	b"") `u8 x,` ,
-} options{ float// " ++ [128512]%N ++ runes_of_ascii " emoji
-= f64 i64_
-=//	t
-00 }
+Eval vm_compute in ("<<<M1673>>>" ++ check (runes_of_ascii "root packet /// triple
+rootA {	i32
+MetaDataX@calculatedFrom( ""CRC32"" ) `line1
+line2` , , } MetaData BodyLength {
+u8
+rootA, } // c")).
+Eval vm_compute in ("<<<M1664>>>" ++ check (runes_of_ascii "root packet /// triple
+rootA {	i32
+MetaDataX@calculatedFrom( ""CRC32"" `line1
+line2` ) , } MetaData BodyLength {
+u8
+rootA, } // c")).
+Eval vm_compute in ("<<<M3788>>>" ++ check (runes_of_ascii "packet  A
+    { match
+    k  as
+    n{ [
+""a""
+
+,	""bb""
+
+    ,	""c c"", ""d"" ,""e"" ,
+
+""f""
+
+    , ""g""	]
+:
+
+B  2 : C} 
+,
+
+    }
 ")).
-Eval vm_compute in ("<<<M485>>>" ++ check (runes_of_ascii "options{
-    Pad =	string options1 =  char[ 65535 ] float= 3
-    ;	falsey	=
-    '\x00' // a // b
-x=
-    //x
-    ' '  }
-")).
-Eval vm_compute in ("<<<M1895>>>" ++ check (runes_of_ascii "packet
+Eval vm_compute in ("<<<M1782>>>" ++ check (runes_of_ascii "packet packet
     Pad // a // b
 { i8i8 @calculatedFrom( ""a	b"") `u8 x,` ,
 } options{ float// " ++ [128512]%N ++ runes_of_ascii " emoji
-= f64 caf" ++ [233]%N ++ runes_of_ascii "_1
+= f64 i64_
 =//	t
 00 }
 ")).
-Eval vm_compute in ("<<<M1802>>>" ++ check (runes_of_ascii "packet
+Eval vm_compute in ("<<<M4357>>>" ++ check (runes_of_ascii "packet Logon {
+    @tag(42)
+    @rightPad(' ')
+    @leftPad()
+    repeat trueish {
+        string T,
+        // c
+    },
+}")).
+Eval vm_compute in ("<<<M1170>>>" ++ check (runes_of_ascii "options
+{// c
+stringy= ""1"" ;float = i64; // a // b
+calculatedFrom
+=
+    ""it's"" ; // c
+Z9_=""// no comment"" ; // " ++ [27880; 37322]%N ++ runes_of_ascii "
+}
+")).
+Eval vm_compute in ("<<<M1886>>>" ++ check (runes_of_ascii "packet
     Pad // a // b
-{ i8i8 ""a	b"" @calculatedFrom() `u8 x,` ,
+{ i8i8 @calculated<From( ""a	b"") `u8 x,` ,
 } options{ float// " ++ [128512]%N ++ runes_of_ascii " emoji
 = f64 i64_
 =//	t
 00 }
 ")).
-Eval vm_compute in ("<<<M1870>>>" ++ check (runes_of_ascii "packet
+Eval vm_compute in ("<<<M1848>>>" ++ check (runes_of_ascii "packet
     Pad // a // b
 { i8i8 @calculatedFrom( ""a	b"") `u8 x,` ,
 } options{ float// " ++ [128512]%N ++ runes_of_ascii " emoji
-= f64 i64_
-=//	t
-00 
-")).
-Eval vm_compute in ("<<<M3046>>>" ++ check (runes_of_ascii "packet A {
-    u16 len @lengthOf(body) `tab
-	x`,
-    u32 crc @calculatedFrom(""CRC32"") `tab
-	x`,
-    string body,
-}")).
-Eval vm_compute in ("<<<M1818>>>" ++ check (runes_of_ascii "packet
-    Pad // a // b
-{ i8i8 @calculatedFrom( ""a	b"") : ,
-} options{ float// " ++ [128512]%N ++ runes_of_ascii " emoji
-= f64 i64_
+{ f64 i64_
 =//	t
 00 }
 ")).
-Eval vm_compute in ("<<<M1298>>>" ++ check (runes_of_ascii "root
-    packet options1 { @calculatedFrom( """ ++ [128512]%N ++ runes_of_ascii """ ) u8x
-@calculatedFrom( ""a\\""
-/// triple
-// @lengthOf(
-) ,	}
-")).
-Eval vm_compute in ("<<<M3586>>>" ++ check (runes_of_ascii "packet f32a {
-    int16 int,
-}
-
-MetaData f32a {
-    char i8i8,
-    string Pad,
-    zchar f32a,
-    x T,
-}")).
-Eval vm_compute in ("<<<M3348>>>" ++ check (runes_of_ascii "packet calculatedFrom { @tag( 4294967296
-// c
-) u msg_type , char[ 3 ] crc @lengthOf( len ) `u8 x,` , }")).
-Eval vm_compute in ("<<<M750>>>" ++ check (runes_of_ascii "  packet i64_{ @leftPad (
-'0'
-//x
-// @lengthOf(
-)	u8 MetaDataX ,
-    i16
-// trailing space 
-//x
-Pad,
-}")).
-Eval vm_compute in ("<<<M229>>>" ++ check (runes_of_ascii "packet x_y_z { char[
-    // packet A { u8 x, }
-    42 ] A @calculatedFrom( ""`tick`"" ) `it's` , }
-
-")).
-Eval vm_compute in ("<<<M3215>>>" ++ check (runes_of_ascii "
-// c
-packet Logon { @tag( 42 ) @rightPad ( ' ' ) @leftPad ( ) repeat trueish { string T , } , }")).
-Eval vm_compute in ("<<<M3230>>>" ++ check (runes_of_ascii "packet Logon { @tag( 42 ) @rightPad ( // c
-' ' ) @leftPad ( ) repeat trueish { string T , } , }")).
-Eval vm_compute in ("<<<M202>>>" ++ check (runes_of_ascii "
-options {
-roots //x
-=""packet"" ; len  =0 ;crc  =zchar[65535
-/// triple
-// " ++ [128512]%N ++ runes_of_ascii " emoji
-]//x
-;
-}
-")).
-Eval vm_compute in ("<<<M271>>>" ++ check (runes_of_ascii "packet BodyLength { @tag(	007
-)
-char[ 65535
-]
-    string_
-`u8 x,`,
-    // @lengthOf(
-    }")).
-Eval vm_compute in ("<<<M2941>>>" ++ check (runes_of_ascii "packet A {
-  match k as n {
-    [1, ""bb"", 007, ""d"", 5, ""f"", 7, ""h""] : B,
-    2 : C
-  },
-}")).
-Eval vm_compute in ("<<<M3021>>>" ++ check (runes_of_ascii "packet A {
-    B b `a
-    b
-  c`,
-    B `a
-    b
-  c`,
-    repeat B bs `a
-    b
-  c`,
-}")).
-Eval vm_compute in ("<<<M1983>>>" ++ check (runes_of_ascii "root
-packet crc
-    { f32a """ ++ [233]%N ++ runes_of_ascii "t" ++ [233]%N ++ runes_of_ascii """ @calculatedFrom( )
-    `say ""hi""`, lengthOf `` ,  }")).
-Eval vm_compute in ("<<<M4134>>>" ++ check (runes_of_ascii "MetaData msg_type {
-    As roots,
-    i32 rootA,
-    f64 falsey,
-    char[] rootA,
-}")).
-Eval vm_compute in ("<<<M2915>>>" ++ check (runes_of_ascii "packet A {
-  match k as n {
-    [1, ""bb"", 007, ""d"", 5, ""f""] : B,
-    2 : C
-  },
-}")).
-Eval vm_compute in ("<<<M3321>>>" ++ check (runes_of_ascii "packet o { @tag( 42 ) repeat x { char[ 0123456789 ] i64_ ,
-// c
-} , } options { }")).
-Eval vm_compute in ("<<<M436>>>" ++ check (runes_of_ascii "
-root packet	f32a {packetx
-@calculatedFrom( ""CRC32""
-    )
-// a // b
-//x
-,  }
-")).
-Eval vm_compute in ("<<<M3670>>>" ++ check (runes_of_ascii "
-packet  A
-
-{ 
-match  k
-as
-	n
-	{
-
-    [	1,
-""bb""  ,  007]
-:B
-	2
-
-: C
-}
-,} ")).
-Eval vm_compute in ("<<<M999>>>" ++ check (runes_of_ascii "
-MetaData
-As
-{Foo len,
-} root packet Foo { Foo x , // `tick` ""quote"" 'q'
-}")).
-Eval vm_compute in ("<<<M3045>>>" ++ check (runes_of_ascii "packet A {
-    B b `tab
-	x`,
-    B `tab
-	x`,
-    repeat B bs `tab
-	x`,
-}")).
-Eval vm_compute in ("<<<M2962>>>" ++ check (runes_of_ascii "packet A { Inner { match k as n { [1,22,007,4,5,66,7,8,9] : B, }, }, }")).
-Eval vm_compute in ("<<<M2885>>>" ++ check (runes_of_ascii "packet A {
-  match k as n {
-    [1, 22, 007, 4] : B,
-    2 : C
-  },
-}")).
-Eval vm_compute in ("<<<M15>>>" ++ check (runes_of_ascii "options
-    { Z9_
-    =
-""" ++ [233]%N ++ runes_of_ascii "t" ++ [233]%N ++ runes_of_ascii """; rootA = string; } // trailing space ")).
-Eval vm_compute in ("<<<M2660>>>" ++ check (runes_of_ascii "options { a = char[3]; b = zchar[0] c = char[] d = string e = u8 }")).
-Eval vm_compute in ("<<<M2813>>>" ++ check (runes_of_ascii "msg_type ""// no comment"" u8 char[ ] string u64 f64 true } char[]")).
-Eval vm_compute in ("<<<M2870>>>" ++ check (runes_of_ascii "packet A {
-  match k as n {
-    [""a"", 22] : B
-    2 : C
-  },
-}")).
-Eval vm_compute in ("<<<M3622>>>" ++ check (runes_of_ascii "MetaData metadata {
-    uint8 metadata `a\`,
-    char len,
-}")).
-Eval vm_compute in ("<<<M4096>>>" ++ check (runes_of_ascii "  packet	A	{ match
-k as	n { 
-[
-1 
-]: 
-B 
-2 :  C  } , 
-}
-")).
-Eval vm_compute in ("<<<M1946>>>" ++ check (runes_of_ascii "
-packet	As { @calculatedFrom(//x
-""{,}""	')lengthOf , } 	 ")).
-Eval vm_compute in ("<<<M175>>>" ++ check (runes_of_ascii "packet
+Eval vm_compute in ("<<<M254>>>" ++ check (runes_of_ascii "options { i8i8= char[]
+    ; } packet
+MetaDataX{ @calculatedFrom( ""x y"" )int32 T `" ++ [28040; 24687; 31867; 22411]%N ++ runes_of_ascii "` ,
+    f64 matchKey
+    , }")).
+Eval vm_compute in ("<<<M4412>>>" ++ check (runes_of_ascii "
+packet
     A {
+    match
+k
+    as
+n  { [ ""a"" ,
+""bb""
+,
+007
+	, ""d""	,  ""e""
+    ] : B
+,
+    2
+    :
+C  }
+
+,
+	}")).
+Eval vm_compute in ("<<<M1830>>>" ++ check (runes_of_ascii "packet
+    Pad // a // b
+{ i8i8 @calculatedFrom( ""a	b"") `u8 x,` ,
+} { float// " ++ [128512]%N ++ runes_of_ascii " emoji
+= f64 i64_
+=//	t
+00 }
+")).
+Eval vm_compute in ("<<<M3047>>>" ++ check (runes_of_ascii "packet A {
+    Inner {
+        u8 x `tab
+	x`,
+        Deep {
+            u8 y `tab
+	x`,
+        },
+    },
+}")).
+Eval vm_compute in ("<<<M3338>>>" ++ check (runes_of_ascii "
+// c
+packet calculatedFrom { @tag( 4294967296 ) u msg_type , char[ 3 ] crc @lengthOf( len ) `u8 x,` , }")).
+Eval vm_compute in ("<<<M3355>>>" ++ check (runes_of_ascii "packet calculatedFrom { @tag( 4294967296 ) u msg_type , // c
+char[ 3 ] crc @lengthOf( len ) `u8 x,` , }")).
+Eval vm_compute in ("<<<M3755>>>" ++ check (runes_of_ascii "packet calculatedFrom {
+    @tag(4294967296)
+    u msg_type,
+    char[3] crc @lengthOf(len) `u8 x,`,
+}")).
+Eval vm_compute in ("<<<M854>>>" ++ check (runes_of_ascii "
+options{ x = ' '
+    }
+packet
 //	t
-/// triple
-repeat
-char[] _x ,  }
+//x
+matchKey
+    { zchar[ 7 ]o  @calculatedFrom(""it's"" ) ,
+}
 ")).
-Eval vm_compute in ("<<<M35>>>" ++ check (runes_of_ascii "MetaData trueish { char[]chars , char[] int
-    ,}
-")).
-Eval vm_compute in ("<<<M3170>>>" ++ check (runes_of_ascii "packet A { B { // a
- u8 x, // b
- } // c
- , // d
- }")).
-Eval vm_compute in ("<<<M2396>>>" ++ check (runes_of_ascii "MetaData A
-{
-i64
-chars	} , // `tick` ""quote"" 'q'")).
-Eval vm_compute in ("<<<M2847>>>" ++ check (runes_of_ascii "options i32 @rightPad { } ] 255 ; int8 as f64 ,")).
-Eval vm_compute in ("<<<M1749>>>" ++ check (runes_of_ascii "options { options} {  } // `tick` ""quote"" 'q'")).
-Eval vm_compute in ("<<<M1091>>>" ++ check (runes_of_ascii "// " ++ [128512]%N ++ runes_of_ascii " emoji
-MetaData
-    tag
-{ /// triple
+Eval vm_compute in ("<<<M3601>>>" ++ check (runes_of_ascii "options {
+}
+
+packet u128 {
+    repeat uint8x x `say ""hi""`,// trailing space 
+}
+
+MetaData crc {
 }")).
-Eval vm_compute in ("<<<M4199>>>" ++ check (runes_of_ascii "
-root packet roots
+Eval vm_compute in ("<<<M3231>>>" ++ check (runes_of_ascii "packet Logon { @tag( 42 ) @rightPad (
+// c
+' ' ) @leftPad ( ) repeat trueish { string T , } , }")).
+Eval vm_compute in ("<<<M878>>>" ++ check (runes_of_ascii "options {  chars = 10  MetaDataX= 3 ;Header
+    =//x
+zchar[ 7 ]x_y_z = """";
+    i64_ =' ' ; }
+
+")).
+Eval vm_compute in ("<<<M4152>>>" ++ check (runes_of_ascii "packet A {
+    Logon {
+        repeat char[42] falsey `a\`,
+        repeat int32 T,
+    },
+}")).
+Eval vm_compute in ("<<<M1961>>>" ++ check (runes_of_ascii "@leftPad
+packet crc
+    { f32a @calculatedFrom( """ ++ [233]%N ++ runes_of_ascii "t" ++ [233]%N ++ runes_of_ascii """ )
+    `say ""hi""`, lengthOf `` ,  }")).
+Eval vm_compute in ("<<<M2017>>>" ++ check (runes_of_ascii "root
+packet crc
+    { f32a @calculatedFrom( """ ++ [233]%N ++ runes_of_ascii "t" ++ [233]%N ++ runes_of_ascii """ )
+    `say ""hi""`, lengthOf `` , ,  }")).
+Eval vm_compute in ("<<<M2043>>>" ++ check (runes_of_ascii "root
+packet crc
+    { f32a @calculatedFrom( """ ++ [233]%N ++ runes_of_ascii "t" ++ [233]%N ++ runes_of_ascii """ )
+    \`say ""hi""`, lengthOf `` ,  }")).
+Eval vm_compute in ("<<<M3638>>>" ++ check (runes_of_ascii "options {
+    LittleEndian = true;
+}
+
+root packet P {
+    repeat char cs,
+    u8 x,
+}")).
+Eval vm_compute in ("<<<M3939>>>" ++ check (runes_of_ascii "packet
+
+    A{
+	match
+
+    k as
+n
+    {
+
+    1  :B
+    ,
+    // c
+}  ,
+}
+")).
+Eval vm_compute in ("<<<M3298>>>" ++ check (runes_of_ascii "packet o { // c
+@tag( 42 ) repeat x { char[ 0123456789 ] i64_ , } , } options { }")).
+Eval vm_compute in ("<<<M3330>>>" ++ check (runes_of_ascii "packet o { @tag( 42 ) repeat x { char[ 0123456789 ] i64_ , } , } options { // c
+}")).
+Eval vm_compute in ("<<<M2919>>>" ++ check (runes_of_ascii "packet A {
+  match k as n {
+    [1, 22, ""c c"", 4, 5, ""f""] : B,
+    2 : C
+  },
+}")).
+Eval vm_compute in ("<<<M3840>>>" ++ check (runes_of_ascii "packet A { match
+
+k as
+
+    n	{  [ 
+1] 
+:
+
+    B
+,2 
+:
+    C
+	}
+,
+    }
+")).
+Eval vm_compute in ("<<<M682>>>" ++ check (runes_of_ascii "packet trueish
     //x
-// " ++ [27880; 37322]%N ++ runes_of_ascii "
+    { @calculatedFrom( ""abc""
+) body `tab	here`	, }
+")).
+Eval vm_compute in ("<<<M2874>>>" ++ check (runes_of_ascii "packet A {
+  match k as n {
+    [""a"", ""bb"", ""c c""] : B,
+    2 : C
+  },
+}")).
+Eval vm_compute in ("<<<M2878>>>" ++ check (runes_of_ascii "packet A {
+  match k as n {
+    [""a"", 22, ""c c""] : B,
+    2 : C
+  },
+}")).
+Eval vm_compute in ("<<<M1981>>>" ++ check (runes_of_ascii "root
+packet crc
+    { f32a  """ ++ [233]%N ++ runes_of_ascii "t" ++ [233]%N ++ runes_of_ascii """ )
+    `say ""hi""`, lengthOf `` ,  }")).
+Eval vm_compute in ("<<<M2886>>>" ++ check (runes_of_ascii "packet A {
+  match k as n {
+    [1, 22, 007, 4] : B
+    2 : C
+  },
+}")).
+Eval vm_compute in ("<<<M2178>>>" ++ check (runes_of_ascii "root
+    // `tick` ""quote"" 'q'
+    packet As { trueish , Packet }
+")).
+Eval vm_compute in ("<<<M1824>>>" ++ check (runes_of_ascii "packet
+    Pad // a // b
+{ i8i8 @calculatedFrom( ""a	b"") `u8 x,`")).
+Eval vm_compute in ("<<<M2797>>>" ++ check (runes_of_ascii "match 1 char uint64 uint64 @tag( int64 `" ++ [28040; 24687; 31867; 22411]%N ++ runes_of_ascii "` options , uint64")).
+Eval vm_compute in ("<<<M3420>>>" ++ check (runes_of_ascii "root  packet
 
-	{ }
+    P
+
+    {
+repeat
+char cs  ,
+u8
+x  ,
+} ")).
+Eval vm_compute in ("<<<M4047>>>" ++ check (runes_of_ascii "
+
+  options
+
+    {a
+    =""x\
+y"" ;	b
+=
+
+    ""x\
+y"" 
+}
+")).
+Eval vm_compute in ("<<<M1379>>>" ++ check (runes_of_ascii "// " ++ [128512]%N ++ runes_of_ascii " emoji
+MetaData u {int	Foo, f32a stringy `doc`,
+} 	 ")).
+Eval vm_compute in ("<<<M1905>>>" ++ check (runes_of_ascii "
+packet	As  @calculatedFrom(//x
+""{,}""	)lengthOf , } 	 ")).
+Eval vm_compute in ("<<<M377>>>" ++ check (runes_of_ascii "// " ++ [27880; 37322]%N ++ runes_of_ascii "
+MetaData u128 {  char[
+    3 ] f32a `doc` , }")).
+Eval vm_compute in ("<<<M4182>>>" ++ check (runes_of_ascii "options
+{
+
+    stringy
+	= ' '	/// triple
+	;
+
+}
 
 ")).
-Eval vm_compute in ("<<<M950>>>" ++ check (runes_of_ascii "MetaData matchKey{Packet As//	t
-`" ++ [233]%N ++ runes_of_ascii "` , }
+Eval vm_compute in ("<<<M2402>>>" ++ check (runes_of_ascii "MetaData {
+A
+i64
+chars	, } // `tick` ""quote"" 'q'")).
+Eval vm_compute in ("<<<M3379>>>" ++ check (runes_of_ascii "// top
+packet
+    // c0
+lengthOf {
+    // c2
+} ")).
+Eval vm_compute in ("<<<M1740>>>" ++ check (runes_of_ascii "{ options }options {  } // `tick` ""quote"" 'q'")).
+Eval vm_compute in ("<<<M4291>>>" ++ check (runes_of_ascii "
+
+  MetaData
+
+packetx 
+{_x
+metadata ,
+    }
 ")).
-Eval vm_compute in ("<<<M3199>>>" ++ check (runes_of_ascii "MetaData zchar { zchar[ 3
-// c
+Eval vm_compute in ("<<<M2131>>>" ++ check (runes_of_ascii "MetaData x
+{// " ++ [128512]%N ++ runes_of_ascii " emoji
+i16 stringy , char[")).
+Eval vm_compute in ("<<<M838>>>" ++ check (runes_of_ascii "MetaData
+zchar {_x
+T
+    , } options {}")).
+Eval vm_compute in ("<<<M3198>>>" ++ check (runes_of_ascii "MetaData zchar { zchar[ 3 // c
 ] Pad , }")).
-Eval vm_compute in ("<<<M4431>>>" ++ check (runes_of_ascii "MetaData 
-u128 { uint32 lengthOf  ,
-}
+Eval vm_compute in ("<<<M3573>>>" ++ check (runes_of_ascii "root packet Pad {
+    zchar[7] float,
+}")).
+Eval vm_compute in ("<<<M311>>>" ++ check (runes_of_ascii "MetaData x_y_z { string options1 , }
 ")).
-Eval vm_compute in ("<<<M798>>>" ++ check (runes_of_ascii "options{ asx = u64 ; string_ = 10 }
-")).
-Eval vm_compute in ("<<<M2823>>>" ++ check (runes_of_ascii "7cz/x~1=[HQ/x:A(ov&qJs5T2>9H=i|j3ta[")).
-Eval vm_compute in ("<<<M2589>>>" ++ check (runes_of_ascii "packet A { x @calculatedFrom(c), }")).
-Eval vm_compute in ("<<<M1766>>>" ++ check (runes_of_ascii "options { }options {  } // `tick")).
-Eval vm_compute in ("<<<M3019>>>" ++ check (runes_of_ascii "root packet A {
+Eval vm_compute in ("<<<M2765>>>" ++ check (runes_of_ascii "@tag( options options [ : char[] i64")).
+Eval vm_compute in ("<<<M2772>>>" ++ check (runes_of_ascii "uint16 char uint16 ' ' root string")).
+Eval vm_compute in ("<<<M2654>>>" ++ check (runes_of_ascii "options { a = 1; b = 2 c = 3;; }")).
+Eval vm_compute in ("<<<M328>>>" ++ check (runes_of_ascii "root packet roots
+//x
+// " ++ [27880; 37322]%N ++ runes_of_ascii "
+{}")).
+Eval vm_compute in ("<<<M3161>>>" ++ check (runes_of_ascii "MetaData M {
+}// c
+packet A {}")).
+Eval vm_compute in ("<<<M2648>>>" ++ check (runes_of_ascii "MetaData M { @tag(1) u8 x, }")).
+Eval vm_compute in ("<<<M3038>>>" ++ check (runes_of_ascii "packet A {
     u8 x `
-`,
+x`,
 }")).
-Eval vm_compute in ("<<<M3113>>>" ++ check (runes_of_ascii "packet A {
- u8 x `d" ++ [8287]%N ++ runes_of_ascii "`, // c" ++ [8287]%N ++ runes_of_ascii "
+Eval vm_compute in ("<<<M3951>>>" ++ check (runes_of_ascii "options {
+    int = i16;
 }")).
-Eval vm_compute in ("<<<M1433>>>" ++ check (runes_of_ascii "root packet Foo // " ++ [128512]%N ++ runes_of_ascii " emoji
-{")).
-Eval vm_compute in ("<<<M2731>>>" ++ check ([14; 3]%N ++ runes_of_ascii "AV" ++ [65533; 65533; 65533]%N ++ runes_of_ascii "r" ++ [4]%N ++ runes_of_ascii "+{e" ++ [65533; 65533; 65533]%N ++ runes_of_ascii ";&" ++ [65533; 65533; 3; 3; 65533]%N ++ runes_of_ascii "Q" ++ [65533]%N ++ runes_of_ascii "+G" ++ [5]%N)).
-Eval vm_compute in ("<<<M2721>>>" ++ check (runes_of_ascii ", 42 { int16 options false")).
-Eval vm_compute in ("<<<M3388>>>" ++ check (runes_of_ascii "packet lengthOf { } // c
-")).
-Eval vm_compute in ("<<<M3276>>>" ++ check (runes_of_ascii "options { u8x
-// c
-= 3 }")).
-Eval vm_compute in ("<<<M3690>>>" ++ check (runes_of_ascii "packet
-A  { }	// c" ++ [8192]%N ++ runes_of_ascii "
- 
-")).
-Eval vm_compute in ("<<<M525>>>" ++ check (runes_of_ascii "packet rootA
-{ //
+Eval vm_compute in ("<<<M4213>>>" ++ check (runes_of_ascii "options {
+    i64_ = 00
+}")).
+Eval vm_compute in ("<<<M3279>>>" ++ check (runes_of_ascii "options { u8x = 3 // c
+}")).
+Eval vm_compute in ("<<<M4160>>>" ++ check (runes_of_ascii "// c 	
+	packet 
+A {
+
+}")).
+Eval vm_compute in ("<<<M1301>>>" ++ check (runes_of_ascii "packet len {
+    } 	 ")).
+Eval vm_compute in ("<<<M2066>>>" ++ check (runes_of_ascii "MetaData A { u64 , }")).
+Eval vm_compute in ("<<<M2849>>>" ++ check (runes_of_ascii "y+" ++ [65533; 65533; 65533]%N ++ runes_of_ascii "Y65x" ++ [1125; 65533; 65533; 0; 65533; 223]%N ++ runes_of_ascii "Q	" ++ [7; 65533]%N)).
+Eval vm_compute in ("<<<M2854>>>" ++ check (runes_of_ascii "8Fa/Ek?q4_g4W,XqgA")).
+Eval vm_compute in ("<<<M3141>>>" ++ check (runes_of_ascii "packet A {
 }
-")).
-Eval vm_compute in ("<<<M1764>>>" ++ check (runes_of_ascii "options { }options {")).
-Eval vm_compute in ("<<<M2790>>>" ++ check ([65533; 65533; 65533]%N ++ runes_of_ascii "4" ++ [65533; 65533]%N ++ runes_of_ascii "(" ++ [65533]%N ++ runes_of_ascii "X" ++ [65533]%N ++ runes_of_ascii "fb" ++ [65533]%N ++ runes_of_ascii "4" ++ [65533]%N ++ runes_of_ascii "{" ++ [65533]%N ++ runes_of_ascii "E" ++ [65533]%N)).
-Eval vm_compute in ("<<<M3067>>>" ++ check (runes_of_ascii "// c" ++ [12288]%N ++ runes_of_ascii "
-packet A {
+// c" ++ [6158]%N)).
+Eval vm_compute in ("<<<M3089>>>" ++ check (runes_of_ascii "packet A {
+}// c" ++ [8202]%N)).
+Eval vm_compute in ("<<<M1016>>>" ++ check (runes_of_ascii "
+MetaData As{
 }")).
-Eval vm_compute in ("<<<M3168>>>" ++ check (runes_of_ascii "packet A { // a
- }")).
-Eval vm_compute in ("<<<M3104>>>" ++ check (runes_of_ascii "packet A {
-}// c" ++ [8239]%N)).
-Eval vm_compute in ("<<<M1156>>>" ++ check (runes_of_ascii "packet o
-{//x
-}")).
-Eval vm_compute in ("<<<M569>>>" ++ check (runes_of_ascii "
-
-/// triple
+Eval vm_compute in ("<<<M717>>>" ++ check (runes_of_ascii "
+options { }
 ")).
-Eval vm_compute in ("<<<M3629>>>" ++ check (runes_of_ascii "options {
-}")).
-Eval vm_compute in ("<<<M2462>>>" ++ check (runes_of_ascii "Metadata")).
-Eval vm_compute in ("<<<M1228>>>" ++ check (runes_of_ascii " // " ++ [27880; 37322]%N)).
-Eval vm_compute in ("<<<M2439>>>" ++ check (runes_of_ascii "uint8")).
-Eval vm_compute in ("<<<M3135>>>" ++ check (runes_of_ascii "// c" ++ [65279]%N)).
-Eval vm_compute in ("<<<M1318>>>" ++ check (runes_of_ascii "
-
-
-")).
-Eval vm_compute in ("<<<M2803>>>" ++ check (runes_of_ascii "4KK")).
-Eval vm_compute in ("<<<M2494>>>" ++ check (runes_of_ascii "/")).
+Eval vm_compute in ("<<<M233>>>" ++ check (runes_of_ascii " // a // b")).
+Eval vm_compute in ("<<<M2502>>>" ++ check (runes_of_ascii "// ab
+c")).
+Eval vm_compute in ("<<<M2454>>>" ++ check (runes_of_ascii "option")).
+Eval vm_compute in ("<<<M2508>>>" ++ check (runes_of_ascii """a\""""")).
+Eval vm_compute in ("<<<M1418>>>" ++ check (runes_of_ascii "root")).
+Eval vm_compute in ("<<<M2469>>>" ++ check (runes_of_ascii "' '")).
+Eval vm_compute in ("<<<M2473>>>" ++ check (runes_of_ascii "''")).
+Eval vm_compute in ("<<<M2674>>>" ++ check (runes_of_ascii ",")).
